@@ -19,11 +19,12 @@ are compared on the REAL interpreter for operands at every boundary of the sourc
      `float_to_fixed` emits are checked against the instance the theorem prescribes and the number model is run at the emitted position.
 """
 from __future__ import annotations
-import importlib.util, os, shutil, sys, tempfile, math, signal
+import importlib.util, os, shutil, sys, tempfile, math, signal, re
 from fractions import Fraction
 from numgen import *   # noqa
 from langexport import Exporter, eval_line, run_real, Unsupported, show_val, ctx_tok, desc_of_ctx, num_tok
 from numspec import floor_log2
+import c10cov
 import fpy2 as fp
 from fpy2 import strategies as S
 from fpy2.number import Float, RealFloat
@@ -59,6 +60,7 @@ class LoweredExporter(Exporter):
     def expr1(self, e):
         from fpy2.ast import fpyast as A
         # `fp.nan()` / `fp.inf()` evaluate to the Float itself, unrounded (ops.nan / ops.inf): a literal of the model
+        if isinstance(e, A.IsNormal): raise Unsupported('pred isnormal (the evaluator has no context-free isnormal)')
         if isinstance(e, A.ConstNan): return '(num Fn0)'
         if isinstance(e, A.ConstInf): return '(num Fi0)'
         if isinstance(e, A.Var) and self.env is not None:
@@ -69,6 +71,9 @@ class LoweredExporter(Exporter):
                 v = None
             if isinstance(v, fp.Context):
                 return '(ctx ' + ctx_tok(desc_of_ctx(v)) + ')'
+            if isinstance(v, bool): return f'(bool {b01(v)})'
+            if isinstance(v, (int, float, Fraction, Float, RealFloat)): return f'(num {num_tok(v)})'
+            if v is not None and not callable(v) and nm.startswith('K_'): raise Unsupported('foreign value (module-level tuple / list / object)')
         return super().expr(e)
 
 class Missing(Exception):
@@ -126,6 +131,7 @@ def ctx_text(d, fpy: bool):
         if fpy: return None
         subs = f", nan_value={_fv_py(d.get('nv'))}, inf_value={_fv_py(d.get('iv'))}"
     bound = (lambda x: _num_fpy(x)) if fpy else _rf_py
+    if d.get('k'): subs += f", num_randbits={d['k']}"      # stochastic rounding: every lowering except `unfold_special` must refuse it
     if f == 'real': return 'fp.REAL'
     if f == 'mp': return f"fp.MPFloatContext({d['p']}, {rm}, enable_nan={d['en']}, enable_inf={d['ei']}{subs})"
     if f == 'mps': return f"fp.MPSFloatContext({d['p']}, {d['emin']}, {rm}, enable_nan={d['en']}, enable_inf={d['ei']}{subs})"
@@ -153,16 +159,32 @@ def ctx_text(d, fpy: bool):
     raise ValueError(f)
 
 HEADER = 'import fpy2 as fp\nfrom fpy2.number import Float, RealFloat\n\n'
+# every public name of fpy2, the module itself bound to no name
+NOALIAS_HEADER = ('import fpy2 as _m\nglobals().update({k: getattr(_m, k) for k in dir(_m) if not k.startswith("_")})\ndel _m\n'
+                  'from fpy2.number import Float, RealFloat\n\n')
 
 VARIANTS = ('assign', 'return', 'prerounded', 'pair', 'mono')
 
 def program_text(name, d, variant, form, R):
     """(module text, source text of the context).  form: 'call' (constructor written in the program) or
     'global' (context object bound at module level)"""
+    head = HEADER; rnd = 'fp.round'; deco = '@fp.fpy'
     if form == 'call':
         cs = ctx_text(d, True); pre = ''
+    elif form == 'attr':            # the context is an attribute of a module-level object
+        cs = f'K_{name}.c'; pre = f'class K_{name}:\n    c = {ctx_text(d, False)}\n\n'
+    elif form == 'with_params':     # ... the result of `with_params`
+        cs = f'C_{name}'; pre = f'{cs} = ({ctx_text(d, False)}).with_params()\n\n'
+    elif form == 'noalias':         # ... in a module that does not bind `fpy2` under a name (a rewrite then emits contexts as values)
+        head = NOALIAS_HEADER; rnd = 'round'; deco = '@fpy'
+        cs = f'C_{name}'; pre = f'{cs} = {ctx_text(d, False).replace("fp.", "")}\n\n'
+    elif form == 'arg':             # ... an argument of the function: nothing about it is known before the call
+        return head + f'{deco}\ndef {name}(x, c):\n    with c:\n        y = {rnd}(x)\n    return y\n', ctx_text(d, False)
     else:
         cs = f'C_{name}'; pre = f'{cs} = {ctx_text(d, False)}\n\n'
+    if form != 'call' and variant == 'assign':
+        body = f'    with {cs}:\n        y = {rnd}(x)\n    return y\n'
+        return head + pre + f'{deco}\ndef {name}(x):\n' + body, ctx_text(d, False)
     if variant == 'mono':
         # typed argument, pinned to a format by `monomorphize` (step 1 of the documented recipe): the value-class
         # analysis then drops the branches the argument format rules out
@@ -243,6 +265,8 @@ def corpus():
     cs.append(dict(fam='mpfix', nmin=-9, rm='rne', k=0, nz=True, en=True, ei=True, nv=None, iv=None))
     cs.append(dict(fam='mpfix', nmin=-5, rm='rtp', k=0, nz=True, **fx))
     cs.append(dict(fam='mpfix', nmin=-5, rm='rtn', k=0, nz=False, **fx))
+    cs.append(dict(fam='mpfix', nmin=-9, rm='rne', k=0, nz=False, **fx))
+    cs.append(dict(fam='mpfix', nmin=-3, rm='rtz', k=0, nz=False, en=True, ei=True, nv=None, iv=None))
     cs.append(dict(fam='mpfix', nmin=2, rm='rne', k=0, nz=True, en=False, ei=False, nv=Z, iv=ONE))
     cs.append(dict(fam='mpfix', nmin=-3, rm='raz', k=0, nz=True, en=False, ei=False, nv=('nan', False), iv=('inf', False)))
     cs.append(dict(fam='mpfix', nmin=-3, rm='rne', k=0, nz=True, en=False, ei=False, nv=ONE, iv=('fin', False, 3, 1)))
@@ -260,6 +284,11 @@ def corpus():
         cs.append(dict(fam='mpbfix', nmin=-4, pos=(False, 0, 7), neg=(True, 0, 7), rm=rm, ov='overflow', k=0, nz=True, en=True, ei=True, nv=None, iv=None))
         cs.append(dict(fam='mpb', p=3, emin=-2, pos=(False, 0, 7), neg=(True, 0, 7), rm=rm, ov='overflow', k=0, **fl))
         cs.append(dict(fam='ieee', es=4, nbits=8, rm=rm, ov='overflow', k=0))
+    # stochastic rounding (num_randbits != 0): refused by every rewrite but `unfold_special`, which only states the specials
+    cs.append(dict(fam='ieee', es=5, nbits=16, rm='rne', ov='overflow', k=2, must=True))
+    cs.append(dict(fam='mpbfix', nmin=-4, pos=(False, 0, 7), neg=(True, 0, 7), rm='rne', ov='saturate', k=3, nz=True, en=True, ei=True, nv=None, iv=None))
+    cs.append(dict(fam='mpfix', nmin=-5, rm='rtz', k=2, nz=True, en=True, ei=True, nv=None, iv=None))
+    cs.append(dict(fam='mps', p=5, emin=-6, rm='rne', k=1, en=True, ei=True, nv=None, iv=None))
     # a float format whose only values are the two zeros
     cs.append(dict(fam='ef', es=0, nbits=2, inf=False, kind='maxval', eoff=0, rm='raz', ov='saturate', k=0, nv=None, iv=None))
     # wrapping sign-magnitude format whose two overflow probes agree by coincidence
@@ -323,12 +352,17 @@ def special_operands():
         out.append(v)
     return out
 
+_CTX_SRC = {}      # id(context object passed as an argument) -> its source text
+
 def operand_src(x) -> str:
     """Python source text of an operand (what a replay evaluates)"""
+    if id(x) in _CTX_SRC: return _CTX_SRC[id(x)]
     if isinstance(x, Float):
         if x.isnan: return f'Float(s={x.s}, isnan=True)'
         if x.isinf: return f'Float(s={x.s}, isinf=True)'
         return f'Float(s={x.s}, exp={x.exp}, c={x.c})'
+    if isinstance(x, list): return '[' + ', '.join(operand_src(v) for v in x) + ']'
+    if isinstance(x, tuple): return '(' + ', '.join(operand_src(v) for v in x) + ',)'
     if isinstance(x, float):
         if math.isnan(x): return "float('nan')"
         if math.isinf(x): return "float('-inf')" if x < 0 else "float('inf')"
@@ -361,6 +395,7 @@ def operands_for(R, d, ctx, n_break, n_edge):
     vals += ev[:n_edge]
     ops = [as_operand(R, v) for v in vals]
     ops += [Fraction(1, 3), Fraction(-2, 3)]          # non-dyadic rationals (F35: `logb` under REAL)
+    ops += [Float(s=True, exp=-200, c=1), Float(s=False, exp=-200, c=1)]   # round to zero from below / above in every format
     ops += special_operands()
     return ops
 
@@ -389,17 +424,19 @@ CHAINS = {
     'no-special': ['unfold_overflow', 'float_to_fixed', 'rescale_fixed'],
 }
 
-class Hang(Exception):
+class Hang(BaseException):       # not an `Exception`: a pass that guards a step with `except Exception` must not swallow the time-out
     pass
 
 def guarded(thunk, seconds=20):
+    # CPU seconds of this process, not wall-clock: on a loaded machine a worker can be off the processor for a long time, and a
+    # rewrite that takes milliseconds must not be reported as hanging (a genuine non-terminating pass burns CPU and is still caught)
     def on_alarm(signum, frame): raise Hang()
-    old = signal.signal(signal.SIGALRM, on_alarm)
-    signal.alarm(seconds)
+    old = signal.signal(signal.SIGVTALRM, on_alarm)
+    signal.setitimer(signal.ITIMER_VIRTUAL, seconds, 1.0)        # and again every second, should one be swallowed all the same
     try:
         return thunk()
     finally:
-        signal.alarm(0); signal.signal(signal.SIGALRM, old)
+        signal.setitimer(signal.ITIMER_VIRTUAL, 0); signal.signal(signal.SIGVTALRM, old)
 
 def short_reason(r: str) -> str:
     return r.split(';')[0][:70]
@@ -412,7 +449,7 @@ def apply_one(rep, name, fn, tag):
     try:
         out = guarded(lambda: go(fn))
     except Hang:
-        rep.count(f'hang:{name}'); return None, 'error:Hang'
+        rep.count(f'hang:{name}'); rep.sample({'hang': name, 'program': describe(fn)}, cap=3); return None, 'error:Hang'
     except Exception as e:
         return None, f'error:{type(e).__name__}'
     if not out.ast.is_equiv(fn.ast):
@@ -800,7 +837,7 @@ def lower_and_compare(rep, R, fn, inputs, info, quick, lines, meta, ctx=None, ma
     todo = {}    # tuple of names -> None; identical effective sequences are run once
     for nm in STRATS:
         if nm != 'simplify': todo[(nm,)] = None
-    chains = list(CHAINS.items()) if not quick else [(k, v) for k, v in CHAINS.items() if k in ('float-recipe', 'fixed-recipe') or R.random() < 0.4]
+    chains = list(CHAINS.items()) if not quick else [(k, v) for k, v in CHAINS.items() if k in ('float-recipe', 'fixed-recipe') or (not info.get('light') and R.random() < 0.4)]
     for _, seq in chains:
         for k in range(2, len(seq) + 1): todo[tuple(seq[:k])] = None
     done = {}    # sequence -> (Function | None, effective sequence)
@@ -826,11 +863,36 @@ def lower_and_compare(rep, R, fn, inputs, info, quick, lines, meta, ctx=None, ma
         else:
             done[seq] = (prev, eff)
         return done[seq]
+    # an explicit `where`: the first site by index, the last by cursor (programs with several sites get a partial rewrite)
+    extra = []
+    if info.get('kind') == 'embedded' and R.random() < (0.5 if quick else 1.0):
+        for nm, (go, strat) in STRATS.items():
+            if strat is None or nm.endswith('[early]'): continue
+            try:
+                sites = guarded(lambda: S.sites(strat, fn))
+                rep.count(f'sites:{nm}:{min(len(sites), 3)}')
+                if not sites: continue
+                for label, where in ((f'{nm}[where=0]', 0), (f'{nm}[where=cursor]', sites[-1])):
+                    out = guarded(lambda: strat(fn, where))
+                    if not out.ast.is_equiv(fn.ast): extra.append((label, out))
+            except Hang:
+                rep.count(f'hang:sites:{nm}')
+            except Exception as e:
+                rep.count(f'where-error:{nm}:{type(e).__name__}')
     seen_eff = set()
-    for seq in todo:
-        xf, eff = build(seq)
+    worklist = [(seq, None) for seq in todo] + [((label,), xf) for label, xf in extra]
+    seen_desc = set()
+    for seq, given in worklist:
+        if given is not None:
+            xf, eff = given, seq
+            key = xf.format()
+            if key in seen_desc: continue
+            seen_desc.add(key)
+        else:
+            xf, eff = build(seq)
         if xf is None or not eff or eff in seen_eff: continue
         seen_eff.add(eff)
+        if given is None and len(eff) == 1: seen_desc.add(xf.format())
         sname = ' > '.join(eff)
         rep.count('lowered-programs'); rep.count('lowered-programs:' + info.get('kind', 'plain'))
         rep.count(f'chain-length:{len(eff)}')
@@ -847,10 +909,11 @@ def lower_and_compare(rep, R, fn, inputs, info, quick, lines, meta, ctx=None, ma
             if not got.startswith('timeout'):
                 f2f_ops.append(args[0]); f2f_res.append(got)
             rep.cov['evaluations'] += 1
-            rep.distinct.add((csrc, variant, info.get('what', ''), sname, repr(args)))
+            rep.distinct.add((csrc, variant, info.get('form'), info.get('what', ''), sname, repr(args)))
             rep.count('orig:ok')
             if got.startswith('timeout'):
-                rep.count('timeout'); continue
+                got = run_real(xf, args, None, 30)
+                if got.startswith('timeout'): got = 'err DoesNotTerminate'
             if got != want:
                 if desc is None: desc = describe(xf)
                 shown = operand_src(args[0]) if len(args) == 1 else args_src(args)
@@ -858,6 +921,7 @@ def lower_and_compare(rep, R, fn, inputs, info, quick, lines, meta, ctx=None, ma
                      f'{sname}: `{csrc}`{info.get("what_txt", "")} maps {shown} to {want[3:60]} but the lowered program gives {got[:60]}',
                      {'ctx_src': csrc, 'ctx': d, 'variant': variant, 'form': info.get('form'), 'arg_format': info.get('arg_format'), 'strategy': sname,
                       'operand': shown, 'original': want, 'lowered': got, 'program': text, 'lowered_program': desc})
+                if got == 'err DoesNotTerminate': break        # one witness is enough: every further input costs another time-out
             if prog is not None and not got.startswith('unsupported') and (max_model is None or nmodel < max_model):
                 if desc is None: desc = describe(xf)
                 nmodel += 1
@@ -869,17 +933,22 @@ def lower_and_compare(rep, R, fn, inputs, info, quick, lines, meta, ctx=None, ma
 
 def plain_one(rep, R, tmp, ci, d, quick, lines, meta, seed):
     """`with C: y = round(x)` and its simple variants for one source context"""
-    n_break, n_edge = (10, 20) if quick else (40, 70)
+    n_break, n_edge = (8, 14) if quick else (40, 70)
     try:
         ctx = ctx_obj(d)
     except Exception:
         rep.count('ctx-rejected'); return
     rep.count('fam:' + d['fam']); rep.count('rm:' + d.get('rm', '-'))
-    variants = ['assign'] + ([R.choice(VARIANTS[1:])] if R.random() < 0.5 else [])
+    # the source context reaches the passes written out as a constructor call AND as a value (module constant, attribute,
+    # result of `with_params`, a module without a name for fpy2): the passes rebuild a context differently in the two cases
+    writable = ctx_text(d, True) is not None
+    first = 'call' if (writable and R.random() < 0.6) else 'global'
+    second = R.choice([f for f in ('call' if writable else 'global', 'global', 'attr', 'with_params', 'noalias', 'arg') if f != first])
+    variants = [('assign', first), ('assign', second), (VARIANTS[1 + (ci + seed) % 4], None)]     # every context also in one of: return / prerounded / pair / mono
     ops = None
-    for variant in variants:
-        form = 'call' if (ctx_text(d, True) is not None and R.random() < 0.6) else 'global'
-        name = f'q{ci}{variant[0]}'
+    for vi, (variant, form) in enumerate(variants):
+        if form is None: form = 'call' if (writable and R.random() < 0.6) else 'global'
+        name = f'q{ci}{variant[0]}{vi}'
         text, csrc = program_text(name, d, variant, form, R)
         path = os.path.join(tmp, name + '.py')
         with open(path, 'w') as fh: fh.write(text)
@@ -891,6 +960,7 @@ def plain_one(rep, R, tmp, ci, d, quick, lines, meta, seed):
         if ops is None:
             ops = operands_for(R, d, ctx, n_break, n_edge)
             rep.cov.setdefault('nops', []).append(len(ops))
+        if d.get('k'): ops = special_operands()       # a stochastic context: only the operands whose result does not depend on the draw
         argfmt = None; vops = ops
         if variant == 'mono':
             from fpy2.types import RealType
@@ -906,9 +976,11 @@ def plain_one(rep, R, tmp, ci, d, quick, lines, meta, seed):
                 try: vops.append(actx.round(x))
                 except Exception: pass
             rep.count('mono:' + argfmt)
-        lower_and_compare(rep, R, fn, [(x,) for x in vops],
-                          {'csrc': csrc, 'd': d, 'variant': variant, 'form': form, 'arg_format': argfmt, 'text': text, 'kind': 'plain'},
-                          quick, lines, meta, ctx=ctx)
+        if vi >= 1 and (quick or vi == 1): vops = vops[-(len(special_operands()) + 4 + 8):]      # the later forms: specials, the non-dyadic pair, a dozen edges
+        if form == 'arg' and variant == 'assign': _CTX_SRC[id(ctx)] = csrc
+        lower_and_compare(rep, R, fn, [((x, ctx) if (form == 'arg' and variant == 'assign') else (x,)) for x in vops],
+                          {'csrc': csrc, 'd': d, 'variant': variant, 'form': form, 'arg_format': argfmt, 'text': text, 'kind': 'plain', 'light': vi == 1 or (quick and vi == 2)},
+                          quick, lines, meta, ctx=ctx, max_model=0 if (form == 'arg' and variant == 'assign') else None)
 
 # ---------------------------------------------------------------- roundings embedded in program contexts
 #
@@ -934,7 +1006,7 @@ def rand_atom(R, v, w, L):
     if k == 8: return f'fp.isfinite({v})'
     if k == 9: return f'fp.signbit({v})'
     if k == 10: return f'abs({v}) {op} {L.lstrip("-")}'
-    if k == 11: return f'{v} != {L}'          # the comparison a NaN satisfies
+    if k == 11: return R.choice([f'{v} != {L}', f'fp.isnormal({v})'])          # the comparison a NaN satisfies
     if k == 12: return f'{v} != {w}'
     return f'{v} == {v}'                       # false exactly for a NaN
 
@@ -951,13 +1023,29 @@ def rand_cond(R, v='x', w='z', L=None, depth=0):
 
 PRE_EXPRS = ['abs(x)', 'x * x', '3', '0.5', '0', '-0.0', 'min(x, 4)', 'max(x, 0)', 'max(min(x, 8), -8)', '-x', 'x + 1', 'abs(x) + 1',
              'x - z', 'fp.sqrt(abs(x))', '(x if x > 0 else 1)', 'fp.copysign(x, z)', 'fp.nan()', 'fp.inf()', '-fp.inf()', 'x * 0', 'x - x',
-             'abs(x) * 0.5', 'min(abs(x), abs(z))', 'max(x, z)', 'min(4, x)', 'max(0, x)', 'min(z, x)', '0 * x', 'x * z', 'x + z', 'z - x', 'abs(z)', '1 / x', 'fp.fma(x, x, 1)', 'z', 'fp.floor(x)', '(0 if fp.isnan(x) else x)']
+             'abs(x) * 0.5', 'min(abs(x), abs(z))', 'max(x, z)', 'min(4, x)', 'max(0, x)', 'min(z, x)', '0 * x', 'x * z', 'x + z', 'z - x', 'abs(z)', 'fp.logb(x)', '2 ** x', '2 ** z', 'fp.exp2(z)',
+             "fp.hexfloat('0x1.8p0')", 'fp.digits(3, -1, 2)', 'fp.fma(x, z, x)', 'fp.fma(x, 2, z)', 'fp.const_pi()', '1 / x', 'fp.fma(x, x, 1)', 'z', 'fp.floor(x)', '(0 if fp.isnan(x) else x)']
 
 EMBED_KINDS = ['if2', 'if1', 'nested', 'elif', 'pre', 'pre-real', 'pre-guard', 'guard-pre', 'round-then', 'round-then-guard', 'seq', 'for', 'loop-phi',
                'while', 'scrub', 'other-guard', 'guard-modify', 'early-return', 'ifexpr', 'pe-static', 'pe-branch', 'ctx-var', 'ctx-var-branch', 'assert',
-               'guard-else-chain', 'ne-sentinel']
+               'guard-else-chain', 'ne-sentinel', 'dyn-ctx', 'dyn-ctx', 'dyn-ctx', 'kw-ctx', 'kw-ctx', 'tuple-bind', 'list-ops', 'list-comp', 'two-sites',
+               'multi-pre', 'multi-pre', 'multi-pre', 'multi-pre', 'class-ops', 'class-ops', 'class-ops', 'class-ops', 'class-ops', 'class-ops', 'class-ops', 'class-ops', 'class-ops']
 
-def embedded_body(R, C, D, kind=None):
+# exact expressions that never raise under REAL, several per program and ALL of them within a few programs ('multi-pre'): which
+# special-value classes the result of each operator can hold is what the lowerings consult before they shed a branch
+SAFE_PRE = ['abs(x)', 'x * x', 'min(x, 4)', 'max(x, 0)', 'max(min(x, 8), -8)', '-x', 'x + 1', 'abs(x) + 1', 'x - z', '(x if x > 0 else 1)', 'fp.copysign(x, z)',
+            'x * 0', 'x - x', 'abs(x) * 0.5', 'min(abs(x), abs(z))', 'max(x, z)', 'min(4, x)', 'max(0, x)', 'max(1, x)', 'min(z, x)', '0 * x', 'x * z', 'x + z', 'z - x', 'abs(z)',
+            'fp.fma(x, z, x)', 'fp.fma(x, 2, z)', 'fp.fma(x, x, 1)', '(0 if fp.isnan(x) else x)', 'min(x, z, 1)', 'max(-1, z, x)', '-abs(x)', 'fp.inf() * z', 'x + fp.inf()',
+            '(x if fp.isfinite(x) else 2)', '(1 if fp.isinf(x) else x) * z', 'fp.logb(x)', 'fp.logb(z) + 1']
+
+# 'class-ops': operands whose class has been NARROWED (a guard, a substitution, a constant, a rounding into a format without the
+# special) under every exact operator: the result can hold a class that neither operand does (0 * inf, inf - inf) or only one does
+CLASS_ATOMS = ['(0 if fp.isnan({v}) else {v})', '(1 if fp.isinf({v}) else {v})', '({v} if fp.isfinite({v}) else 2)', '({v} if {v} != 0 else 1)', '{v}',
+               '(0 if fp.isnan({v}) else {v})', 'fp.inf()', '0', '-fp.inf()', '(0 if {v} != {v} else {v})', 'abs({v})', '(3 if fp.isnan({v}) or fp.isinf({v}) else {v})', '-0.0', '2.5']
+CLASS_OPS = ['a * b', 'a + b', 'a - b', 'min(a, b)', 'max(a, b)', '-a', 'abs(b)', 'fp.fma(a, b, a)', 'fp.fma(a, a, b)', '(a if z > 0 else b)', 'fp.copysign(a, b)', 'b - a',
+             'min(b, a)', 'max(b, a)', 'a * a', 'b * a', 'a + a', 'a - a', 'max(a, b, 1)', 'min(1, a)', 'abs(a) * b', '(a * b) + a', 'fp.logb(a)', 'fp.logb(b) + a']
+
+def embedded_body(R, C, D, kind=None, ordinal=0):
     """(kind, body text, number of arms tagged).  The function has arguments x, z and returns (result, arm)."""
     L = R.choice(LITS)
     rnd = lambda v, tgt, ctx, ind: f'{ind}with {ctx}:\n{ind}    {tgt} = fp.round({v})\n'
@@ -1043,6 +1131,60 @@ def embedded_body(R, C, D, kind=None):
     elif k == 'assert':
         tst = R.choice(['not fp.isnan(x)', 'fp.isfinite(x)', 'x != 0', f'x != {L}', 'x > 0', f'x <= {L}'])
         b = f'{I}assert {tst}\n{I}arm = 0\n' + rnd('x', 'y', C, I)
+    elif k == 'multi-pre':
+        n = 6
+        es = [SAFE_PRE[(n * ordinal + i) % len(SAFE_PRE)] for i in range(n)]
+        b = (f'{I}with fp.REAL:\n' + ''.join(f'{I}    t{i} = {e}\n' for i, e in enumerate(es)) + f'{I}arm = 0\n'
+             + ''.join(rnd(f't{i}', f'y{i}', C if i % 3 else R.choice([C, D]), I) for i in range(n)) + f'{I}y = ({", ".join(f"y{i}" for i in range(n))})\n')
+    elif k == 'class-ops':
+        # program number `ordinal`: the pair of narrowed operands number ordinal // 3 under one third of the operators
+        pairs = [(0, 0), (6, 0), (2, 2), (11, 11), (1, 1), (4, 7), (3, 8), (2, 4), (0, 7), (12, 0), (9, 10), (13, 1)]
+        ia, ib = pairs[(ordinal // 3) % len(pairs)]
+        third = (len(CLASS_OPS) + 2) // 3
+        ops = CLASS_OPS[(ordinal % 3) * third:(ordinal % 3 + 1) * third]
+        b = (f'{I}with fp.REAL:\n{I}    a = {CLASS_ATOMS[ia].format(v="x")}\n{I}    b = {CLASS_ATOMS[ib].format(v="z")}\n'
+             + ''.join(f'{I}    t{i} = {e}\n' for i, e in enumerate(ops)) + f'{I}arm = 0\n'
+             + ''.join(rnd(f't{i}', f'y{i}', C, I) for i in range(len(ops))) + f'{I}y = ({", ".join(f"y{i}" for i in range(len(ops)))})\n')
+    elif k == 'dyn-ctx':
+        # a fixed-point context whose POSITION is only known at run time (what `float_to_fixed` emits): `rescale_fixed` shifts it
+        # symbolically; the other rewrites must refuse it
+        n1, n2 = R.choice(['-3', '-6', '2', '0']), R.choice(['-5', '-1', '1'])
+        head = R.choice([f'{I}n = {n1}\n{I}if z > 0:\n{I}    n = {n2}\n', f'{I}n = {n1} if z > 0 else {n2}\n', f'{I}with fp.REAL:\n{I}    n = fp.round(min(max(z, -6), 3))\n{I}    n = fp.floor(n)\n'])
+        calls = ['fp.MPFixedContext(n)', 'fp.MPFixedContext(n - 1)', 'fp.MPFixedContext(n - 1, enable_neg_zero=False)', 'fp.MPFixedContext(nmin=n)',
+                         'fp.FixedContext(True, n, 8, fp.RM.RNE, fp.OV.SATURATE)', 'fp.FixedContext(True, scale=n, nbits=8)', 'fp.SMFixedContext(n, 6, fp.RM.RTZ, fp.OV.SATURATE)',
+                         'fp.MPBFixedContext(n - 1, 2 ** (n + 3), fp.RM.RNE, fp.OV.SATURATE)', 'fp.MPBFixedContext(n - 1, 2 ** (3 + n), overflow=fp.OV.OVERFLOW, enable_inf=True)',
+                         'fp.MPBFixedContext(n - 1, 8, fp.RM.RNE, fp.OV.SATURATE)', 'fp.MPBFixedContext(n - 1, maxval=8, overflow=fp.OV.SATURATE)',
+                         'fp.MPFixedContext(n, enable_inf=True, inf_value=fp.inf())', 'fp.MPFixedContext(n - 1, enable_nan=True, nan_value=fp.nan())',
+                         'fp.MPFixedContext(n - 1, inf_value=z)', 'fp.MPFixedContext(0 - 1)', 'fp.MPFloatContext(n + 8)', 'fp.MPSFloatContext(5, n)',
+                         'fp.MPBFixedContext(n - 1, 2 ** (n + 3), fp.RM.RTZ, fp.OV.WRAP)']
+        pick = [calls[(4 * ordinal + i) % len(calls)] for i in range(4)]       # every written form appears within a few programs
+        b = head + f'{I}arm = 0\n' + ''.join(f'{I}with {c}:\n{I}    y{i} = fp.round(x)\n' for i, c in enumerate(pick)) + f'{I}y = (y0, y1, y2, y3)\n'
+    elif k == 'kw-ctx':
+        # statically known contexts written with keyword arguments (a rewrite that edits the written form must find the argument)
+        calls = ['fp.FixedContext(True, scale=-4, nbits=8)', 'fp.FixedContext(signed=True, scale=-4, nbits=8, rm=fp.RM.RNE, overflow=fp.OV.SATURATE)',
+                         'fp.MPFixedContext(nmin=-5, enable_neg_zero=False)', 'fp.MPFixedContext(-5, rm=fp.RM.RTN, enable_nan=True, enable_inf=True)',
+                         'fp.MPBFixedContext(nmin=-4, maxval=7, overflow=fp.OV.SATURATE)', 'fp.MPBFixedContext(-4, 7, overflow=fp.OV.OVERFLOW, enable_inf=True, enable_neg_zero=False)',
+                         'fp.SMFixedContext(scale=-3, nbits=6, overflow=fp.OV.SATURATE)', 'fp.IEEEContext(es=5, nbits=16, rm=fp.RM.RTZ)', 'fp.MPSFloatContext(pmax=6, emin=-4, enable_nan=False)',
+                         'fp.MPFloatContext(pmax=5, enable_inf=False)', 'fp.MPBFloatContext(4, -3, maxval=26, overflow=fp.OV.SATURATE)',
+                         'fp.MPBFixedContext(-4, maxval=7, rm=fp.RM.RTP, overflow=fp.OV.WRAP)']
+        pick = [calls[(4 * ordinal + i) % len(calls)] for i in range(4)]
+        b = f'{I}arm = 0\n' + ''.join(f'{I}with {c}:\n{I}    y{i} = fp.round(x)\n' for i, c in enumerate(pick)) + f'{I}y = (y0, y1, y2, y3)\n'
+    elif k == 'tuple-bind':
+        e1, e2 = R.choice(PRE_EXPRS), R.choice(PRE_EXPRS)
+        b = (f'{I}with fp.REAL:\n{I}    a, b = ({e1}, {e2})\n{I}    _, c = (z, a)\n{I}p = (1, 2)\n{I}if z > 0:\n{I}    p = (1, 2)\n{I}u, v = p\n{I}arm = 0\n'
+             + rnd('c', 'y', C, I) + rnd('b', 'y2', D, I) + f'{I}y = y + y2 * u\n')
+    elif k == 'list-ops':
+        e1 = R.choice(PRE_EXPRS)
+        b = (f'{I}with fp.REAL:\n{I}    xs = [x, z, {e1}, 1]\n{I}    xs[1] = {R.choice(["0", "abs(z)", "x"])}\n{I}    us = xs[1:3]\n{I}    t = xs[{R.choice([0, 2])}]\n{I}    s = sum(us)\n{I}    m = {R.choice(["max(us)", "min(xs)", "max(x, z)"])}\n'
+             f'{I}arm = 0\n' + rnd('t', 'y', C, I) + rnd('s', 'y2', C, I) + rnd('m', 'y3', D, I) + f'{I}y = y + y2 + y3\n')
+    elif k == 'list-comp':
+        e1 = R.choice(['abs(v)', 'v * v', '-v', 'v + 1', 'max(v, 0)', 'fp.fma(v, v, 1)'])
+        b = (f'{I}with fp.REAL:\n{I}    ys = [{e1} for v in [x, z]]\n{I}    t = ys[0]\n{I}    u = ys[1]\n{I}arm = 0\n' + rnd('t', 'y', C, I) + rnd('u', 'y2', C, I)
+             + f'{I}for i, v in enumerate(ys):\n{I}    y = y + v * 0\n{I}for a, c in zip(ys, ys):\n{I}    y2 = y2 + (a - c)\n{I}for i in range(len(ys)):\n{I}    y = y + 0\n{I}y = y + y2\n')
+    elif k == 'two-sites':
+        # several lowerable blocks in one program: a `where=` index or cursor must pick exactly one of them
+        c = rand_cond(R, L=L)
+        b = (rnd('x', 'a', C, I) + f'{I}if {c}:\n{I}    arm = 1\n' + rnd('z', 'b', D, I * 2) + f'{I}else:\n{I}    arm = 2\n' + rnd('a', 'b', D, I * 2) + rnd('b', 'y', C, I) + f'{I}y = y + a * 0\n')
     else:   # guard-else-chain: the FAILED comparison (a NaN fails every ordering and `==`)
         op = R.choice(['<', '<=', '>', '>=', '=='])
         b = (f'{I}if x {op} {L}:\n{I}    arm = 1\n{I}    y = x\n{I}else:\n{I}    arm = 2\n' + rnd('x', 'y', C, I * 2))
@@ -1096,7 +1238,7 @@ def embedded_inputs(R, ctx, d, L, n_edge):
     out = []
     nspecial = len(special_operands())
     for i, x in enumerate(xs):
-        zs = [R.choice(zpool), R.choice(zpool)]
+        zs = [R.choice(zpool)] + ([R.choice(zpool)] if R.random() < 0.4 else [])
         if i < nspecial: zs = [float('nan'), float('inf'), 0.0, 1.0, R.choice(zpool)]   # a special x meets every class of z
         if R.random() < 0.3: zs.append(x)
         seen = set()
@@ -1108,6 +1250,16 @@ def embedded_inputs(R, ctx, d, L, n_edge):
 def embedded_one(rep, R, tmp, ei, quick, lines, meta, seed):
     fixed = EMBED_FIXED[ei] if ei < len(EMBED_FIXED) else None
     d = dict(EMBED_CTXS[fixed[2]] if fixed else R.choice(EMBED_CTXS + [add_substitutes(R, rand_ctx(R)) for _ in range(6)]))
+    j = ei - len(EMBED_FIXED)
+    n_k = len(EMBED_KINDS)
+    fixed_kind = EMBED_KINDS[j % n_k] if 0 <= j < 2 * n_k else None
+    if fixed_kind is not None:
+        # what a site does with its operand's class depends on the family of the site's context: the first round over the kinds
+        # pairs every kind with a FLOAT context (what `float_to_fixed` / `unfold_special` lower), the second with a FIXED-POINT
+        # one (`unfold_overflow` / `unfold_neg_zero` / `rescale_fixed`); the contexts cycle within their group
+        grp = [c for c in EMBED_CTXS if (c['fam'] in ('ieee', 'mps', 'mp', 'mpb', 'ef')) == (j < n_k)]
+        if fixed_kind in ('multi-pre', 'class-ops') and R.random() < 0.6: grp = [c for c in EMBED_CTXS if c['fam'] in ('ieee', 'mps', 'mp', 'mpb')]
+        d = dict(grp[(j + seed) % len(grp)])
     d2 = dict(R.choice(EMBED_CTXS))
     try:
         ctx = ctx_obj(d); ctx_obj(d2)
@@ -1129,9 +1281,9 @@ def embedded_one(rep, R, tmp, ei, quick, lines, meta, seed):
         if kind == 'nan-sign': body = NAN_SIGN_BODY.format(C=C)
         L = '1'
     else:
-        # every kind of site appears in every run (three rounds over the list), the rest is drawn at random
-        j = ei - len(EMBED_FIXED)
-        kind, body, L = embedded_body(R, C, D, EMBED_KINDS[j % len(EMBED_KINDS)] if j < 3 * len(EMBED_KINDS) else None)
+        # every kind of site appears in every run (two rounds over the list; the kinds that cycle through a list of forms are told their ordinal), the rest is drawn at random
+        ordinal = ((j // n_k) * EMBED_KINDS.count(fixed_kind) + EMBED_KINDS[:j % n_k].count(fixed_kind)) if fixed_kind else R.randint(0, 9)
+        kind, body, L = embedded_body(R, C, D, fixed_kind, ordinal)
     text = HEADER + pre + ('\n' if pre else '') + f'@fp.fpy\ndef {name}(x, z):\n' + body
     path = os.path.join(tmp, name + '.py')
     with open(path, 'w') as fh: fh.write(text)
@@ -1142,6 +1294,16 @@ def embedded_one(rep, R, tmp, ei, quick, lines, meta, seed):
     rep.count('embedded:' + kind)
     csrc = ctx_text(d, False)
     inputs = embedded_inputs(R, ctx, d, L, 8 if quick else 20)
+    if kind in ('multi-pre', 'class-ops'):
+        reps = [float('nan'), float('inf'), -float('inf'), 0.0, -0.0, 1.5, -2.25, 65536.0]
+        have = {repr(a) for a in inputs}
+        inputs += [(a, b) for a in reps for b in reps if repr((a, b)) not in have]
+    if '2 **' in body or 'exp2' in body:
+        # 2 ** z with |z| >= 2^30 leaves the exponent range of the MPFR back end (C02's known finding C02-F3): not this property's business
+        def small(v):
+            try: return (isinstance(v, float) and (v != v or abs(v) == float('inf'))) or (isinstance(v, Float) and v.is_nar()) or abs(Fraction(v) if not isinstance(v, Float) else v.as_rational()) < 2 ** 20
+            except Exception: return True
+        inputs = [a for a in inputs if all(small(v) for v in a)]
     # which arms do the inputs reach (on the original program)?
     arms = set()
     for a in inputs:
@@ -1152,6 +1314,697 @@ def embedded_one(rep, R, tmp, ei, quick, lines, meta, seed):
                       {'csrc': csrc, 'd': d, 'variant': 'embedded:' + kind, 'form': None, 'arg_format': None, 'text': text, 'kind': 'embedded',
                        'what': text, 'what_txt': f' inside `{kind}`'},
                       quick, lines, meta, ctx=None, max_model=10 if quick else 30)
+
+# ---------------------------------------------------------------- typed programs: elim_round / insert_round driven by format inference
+#
+# `elim_round` deletes (and `insert_round` adds) roundings that FORMAT INFERENCE proves to be identities.  What it can prove depends
+# on the formats of the arguments, so these programs have TYPED arguments of every family -- two's-complement SINTn / UINTn, scaled
+# fixed point, sign-magnitude, unbounded fixed point with and without a negative zero, asymmetric bounded formats, low- and
+# high-precision floats -- every operator between them, and rounding contexts RELATED to the argument formats: the argument's own
+# format back again (a round trip through another format), a wider and a narrower member of the same family, each with every
+# overflow mode, besides unrelated ones.  Inputs sit at both extremes of each argument format and in pairs that drive the exact
+# result out of the target range on either side.
+
+def T_tc(signed, scale, nbits, rm='RTZ', ov='WRAP'): return ('tc', dict(signed=signed, scale=scale, nbits=nbits, rm=rm, ov=ov))
+def T_sm(scale, nbits, rm='RNE', ov='SATURATE'): return ('sm', dict(scale=scale, nbits=nbits, rm=rm, ov=ov))
+def T_mpfix(nmin, rm='RNE', nz=True, en=False, ei=False): return ('mpfix', dict(nmin=nmin, rm=rm, nz=nz, en=en, ei=ei))
+def T_mpbfix(nmin, pos, neg, rm='RNE', ov='SATURATE', nz=True): return ('mpbfix', dict(nmin=nmin, pos=pos, neg=neg, rm=rm, ov=ov, nz=nz))
+def T_ieee(es, nbits, rm='RNE', ov='OVERFLOW'): return ('ieee', dict(es=es, nbits=nbits, rm=rm, ov=ov))
+def T_mp(p, rm='RNE'): return ('mp', dict(p=p, rm=rm))
+def T_mps(p, emin, rm='RNE'): return ('mps', dict(p=p, emin=emin, rm=rm))
+def T_mpb(p, emin, pos, neg, rm='RNE', ov='OVERFLOW'): return ('mpb', dict(p=p, emin=emin, pos=pos, neg=neg, rm=rm, ov=ov))
+def T_mpk(p, k, rm='RNE'): return ('mpk', dict(p=p, k=k, rm=rm))
+def T_exp(nbits, eoff=0, rm='RNE', ov='OVERFLOW'): return ('exp', dict(nbits=nbits, eoff=eoff, rm=rm, ov=ov))
+def T_ef(es, nbits, inf, kind, rm='RNE', ov='OVERFLOW'): return ('ef', dict(es=es, nbits=nbits, inf=inf, kind=kind, rm=rm, ov=ov))
+
+_TC_NAMES = {(True, 8): 'fp.SINT8', (False, 8): 'fp.UINT8', (True, 16): 'fp.SINT16', (False, 16): 'fp.UINT16', (True, 32): 'fp.SINT32', (False, 32): 'fp.UINT32'}
+
+def _rfi(q):
+    """RealFloat text of a dyadic given as (numerator, exp)"""
+    n, e = q
+    return f'RealFloat(s={n < 0}, exp={e}, c={abs(n)})'
+
+def spec_text(spec, named=False):
+    """(Python text, is the text also valid inside an FPy program)"""
+    k, p = spec
+    rm = f"fp.RM.{p['rm']}" if 'rm' in p else ''
+    ov = f"fp.OV.{p['ov']}" if 'ov' in p else ''
+    if k == 'tc':
+        if named and p['scale'] == 0 and p['rm'] == 'RTZ' and p['ov'] == 'WRAP' and (p['signed'], p['nbits']) in _TC_NAMES:
+            return _TC_NAMES[(p['signed'], p['nbits'])], True
+        return f"fp.FixedContext({p['signed']}, {p['scale']}, {p['nbits']}, {rm}, {ov})", True
+    if k == 'sm': return f"fp.SMFixedContext({p['scale']}, {p['nbits']}, {rm}, {ov})", True
+    if k == 'mpfix':
+        if named and p == dict(nmin=-1, rm='RTZ', nz=False, en=False, ei=False): return 'fp.INTEGER', True
+        return f"fp.MPFixedContext({p['nmin']}, {rm}, enable_nan={p['en']}, enable_inf={p['ei']}, enable_neg_zero={p['nz']})", True
+    if k == 'mpbfix':
+        return (f"fp.MPBFixedContext({p['nmin']}, {_rfi(p['pos'])}, {rm}, {ov}, neg_maxval={_rfi(p['neg'])}, enable_neg_zero={p['nz']})", False)
+    if k == 'ieee':
+        if named and p['rm'] == 'RNE' and p['ov'] == 'OVERFLOW' and (p['es'], p['nbits']) in ((5, 16), (8, 32), (11, 64)):
+            return {16: 'fp.FP16', 32: 'fp.FP32', 64: 'fp.FP64'}[p['nbits']], True
+        return f"fp.IEEEContext({p['es']}, {p['nbits']}, {rm}, {ov})", True
+    if k == 'mp': return f"fp.MPFloatContext({p['p']}, {rm})", True
+    if k == 'mps': return f"fp.MPSFloatContext({p['p']}, {p['emin']}, {rm})", True
+    if k == 'mpb': return f"fp.MPBFloatContext({p['p']}, {p['emin']}, {_rfi(p['pos'])}, {rm}, {ov}, neg_maxval={_rfi(p['neg'])})", False
+    if k == 'mpk': return f"fp.MPFloatContext({p['p']}, {rm}, {p['k']})", True      # stochastic rounding
+    if k == 'exp': return f"fp.ExpContext({p['nbits']}, {p['eoff']}, {rm}, {ov})", True
+    if k == 'ef': return f"fp.EFloatContext({p['es']}, {p['nbits']}, {p['inf']}, fp.EFloatNanKind.{p['kind']}, 0, {rm}, {ov})", True
+    raise ValueError(k)
+
+def spec_obj(spec):
+    return eval(spec_text(spec)[0], {'fp': fp, 'RealFloat': RealFloat})
+
+TYPED_ARGS = [
+    T_tc(True, 0, 8), T_tc(False, 0, 8), T_tc(True, 0, 16), T_tc(False, 0, 16), T_tc(True, 0, 32), T_tc(True, -3, 8), T_tc(False, -2, 6), T_tc(True, 2, 6),
+    T_tc(True, -8, 24, 'RNE', 'SATURATE'), T_sm(-2, 6), T_sm(0, 8), T_mpfix(-1, 'RTZ', False), T_mpfix(-4), T_mpfix(-4, 'RNE', False), T_mpfix(-6, 'RNE', True, True, True),
+    T_mpbfix(-3, (21, -2), (-5, -1)), T_mpbfix(-1, (100, 0), (0, 0), 'RNE', 'SATURATE', False),
+    T_ieee(5, 16), T_ieee(8, 32), T_ieee(11, 64), T_ieee(4, 8), T_ieee(3, 6), T_ieee(5, 16, 'RTZ', 'SATURATE'), T_mp(6), T_mp(24), T_mps(5, -6), T_mps(11, -14),
+    T_mpb(4, -3, (13, 1), (-7, 0)), T_ef(4, 8, False, 'MAX_VAL'), T_ef(3, 6, True, 'NEG_ZERO'), T_ef(2, 4, False, 'NONE'), T_exp(4), T_exp(3, -2, 'RTZ', 'SATURATE'),
+]
+RMS_U = ['RNE', 'RNA', 'RTP', 'RTN', 'RTZ', 'RAZ', 'RTO', 'RTE']
+OVS_FIX = ['WRAP', 'SATURATE', 'OVERFLOW', 'ASSERT']
+OVS_FLT = ['OVERFLOW', 'SATURATE', 'ASSERT']
+
+def related(R, spec):
+    """a rounding context related to an argument format: itself, itself with another overflow mode / rounding mode, a wider or a
+    narrower member of its family, the other signedness"""
+    k, p = spec
+    q = dict(p)
+    how = R.choice(['same', 'ov', 'ov', 'wider', 'wider', 'narrower', 'rm', 'flip', 'as-mpb', 'as-mpb'])
+    if how == 'as-mpb' and k in ('tc', 'sm'):
+        # the same bounds stated through the general bounded fixed-point class instead of the two's-complement / sign-magnitude one
+        hi = (1 << (p['nbits'] - 1)) - 1 if (k == 'sm' or p['signed']) else (1 << p['nbits']) - 1
+        lo = -hi if k == 'sm' else (-(1 << (p['nbits'] - 1)) if p['signed'] else 0)
+        return ('mpbfix', dict(nmin=p['scale'] - 1, pos=(hi, p['scale']), neg=(lo, p['scale']), rm=R.choice(['RNE', p['rm']]),
+                               ov=R.choice(OVS_FIX), nz=R.choice([True, True, False])))
+    if how == 'as-mpb' and k == 'ieee':
+        c = spec_obj(spec); m = c.maxval().as_real()
+        return ('mpb', dict(p=c.pmax, emin=c.emin, pos=(m.c, m.exp), neg=(-m.c, m.exp), rm=p['rm'], ov=R.choice(OVS_FLT)))
+    if 'ov' in q and how in ('ov', 'wider', 'narrower', 'flip'):
+        q['ov'] = R.choice(OVS_FIX if k in ('tc', 'sm', 'mpbfix') else OVS_FLT)
+    if how == 'rm' and 'rm' in q: q['rm'] = R.choice(RMS_U)
+    if how == 'wider':
+        if k in ('tc', 'sm'): q['nbits'] += R.choice([1, 8]); q['scale'] -= R.choice([0, 0, 2])
+        elif k == 'ieee': q['nbits'] += R.choice([2, 8]); q['es'] += R.choice([0, 1])
+        elif k in ('mp', 'mps', 'mpb'): q['p'] += R.choice([1, 8])
+        elif k in ('mpfix', 'mpbfix'): q['nmin'] -= 3
+    if how == 'narrower':
+        if k in ('tc', 'sm'): q['nbits'] = max(2, q['nbits'] - R.choice([1, 3])); q['scale'] += R.choice([0, 0, 1])
+        elif k == 'ieee' and q['nbits'] - q['es'] > 3: q['nbits'] -= 2
+        elif k in ('mp', 'mps', 'mpb'): q['p'] = max(1, q['p'] - R.choice([1, 3]))
+        elif k in ('mpfix', 'mpbfix'):
+            q['nmin'] += 2
+            if k == 'mpbfix':        # the bounds must be members of the coarser grid
+                u = Fraction(2) ** (q['nmin'] + 1)
+                regrid = lambda ne: (int(abs(Fraction(ne[0]) * Fraction(2) ** ne[1]) / u) * (1 if ne[0] >= 0 else -1), q['nmin'] + 1)
+                q['pos'], q['neg'] = regrid(q['pos']), regrid(q['neg'])
+    if how == 'flip':
+        if k == 'tc': q['signed'] = not q['signed']
+        elif k == 'mpfix': q['nz'] = not q['nz']
+    return (k, q)
+
+def rand_target(R, argspecs):
+    if R.random() < 0.65: return related(R, R.choice(argspecs))
+    s = R.choice(TYPED_ARGS)
+    return related(R, s) if R.random() < 0.5 else s
+
+def typed_expr(R, vars_, depth=0):
+    """a random expression over the typed arguments: every operator the rounding axis knows"""
+    v = lambda: R.choice(vars_)
+    if depth >= 2 or (depth > 0 and R.random() < 0.45):
+        return R.choice([v(), v(), v(), R.choice(['1', '2', '0.5', '3', '0', '-1', '255', '0.25'])])
+    a, b = typed_expr(R, vars_, depth + 1), typed_expr(R, vars_, depth + 1)
+    k = R.randint(0, 12)
+    if k == 0: return f'({a} + {b})'
+    if k == 1: return f'({a} - {b})'
+    if k == 2: return f'({a} - {b})'
+    if k == 3: return f'({a} * {b})'
+    if k == 4: return f'(-{a})'
+    if k == 5: return f'abs({a})'
+    if k == 6: return f'min({a}, {b})'
+    if k == 7: return f'max({a}, {b})'
+    if k == 8: return f'fp.fma({a}, {b}, {typed_expr(R, vars_, depth + 1)})'
+    if k == 9: return f'fp.round({a})'
+    if k == 10: return f'fp.cast({a})'
+    if k == 11: return f'({a} + {b})'
+    return f'({a} * {b})'
+
+def binop_expr(R, vars_):
+    a, b = R.choice(vars_), R.choice(vars_)
+    return R.choice([f'{a} + {b}', f'{a} - {b}', f'{b} - {a}', f'{a} * {b}', f'-{a}', f'abs({a})', f'min({a}, {b})', f'max({a}, {b})',
+                     f'fp.fma({a}, {b}, {R.choice(vars_)})', f'{a} - 1', f'1 - {a}', f'{a} * 2', f'{a} + {a}', f'abs({a} - {b})'])
+
+TYPED_SHAPES = ['op', 'op', 'op-tree', 'roundtrip', 'roundtrip', 'op-then-round', 'op-then-cast', 'real-then-round', 'two-ops', 'branch-join', 'loop-acc',
+                'loop-for-list', 'listcomp', 'ifexpr', 'nested-with', 'while-acc', 'tuple-bind', 'literal-set', 'minmax-clamp', 'if1-update',
+                'unary-misc', 'list-typed', 'call', 'assert-bool', 'foreign-const', 'set-arith', 'while-cond', 'while-cond', 'fit-store', 'fit-store', 'fit-store', 'fit-store', 'fit-store', 'fit-store', 'fit-store', 'fit-store', 'list-misc', 'unary-misc', 'foreign-const', 'list-arg', 'list-arg', 'tuple-arg', 'outer-scope', 'outer-scope', 'clamp-float', 'clamp-float', 'inner-finer', 'inner-finer']
+
+def typed_body(R, shape, vars_, C, D, ordinal=0):
+    I = '    '
+    e = lambda: binop_expr(R, vars_)
+    x, z = vars_[0], vars_[-1]
+    if shape == 'op': return f'{I}with {C}:\n{I}    y = {e()}\n{I}return y\n'
+    if shape == 'op-tree': return f'{I}with {C}:\n{I}    y = {typed_expr(R, vars_)}\n{I}return y\n'
+    if shape == 'roundtrip': return f'{I}with {C}:\n{I}    t = fp.round({x})\n{I}with {D}:\n{I}    y = fp.round(t)\n{I}return y\n'
+    if shape == 'op-then-round': return f'{I}with {C}:\n{I}    t = {e()}\n{I}with {D}:\n{I}    y = fp.round(t)\n{I}return y\n'
+    if shape == 'op-then-cast': return f'{I}with {C}:\n{I}    t = {e()}\n{I}with {D}:\n{I}    y = fp.cast(t)\n{I}return y\n'
+    if shape == 'real-then-round': return f'{I}with fp.REAL:\n{I}    t = {typed_expr(R, vars_, 1)}\n{I}with {C}:\n{I}    y = fp.round(t)\n{I}return y\n'
+    if shape == 'two-ops': return f'{I}with {C}:\n{I}    t = {e()}\n{I}    y = {binop_expr(R, ["t", z])}\n{I}return y\n'
+    if shape == 'branch-join':
+        return (f'{I}if {x} > {z}:\n{I}    with {C}:\n{I}        t = {e()}\n{I}else:\n{I}    with {D}:\n{I}        t = {e()}\n'
+                f'{I}with {C}:\n{I}    y = fp.round(t)\n{I}return y\n')
+    if shape == 'loop-acc': return f'{I}t = {x}\n{I}for i in range(3):\n{I}    with {C}:\n{I}        t = {binop_expr(R, ["t", z])}\n{I}return t\n'
+    if shape == 'loop-for-list':
+        return f'{I}t = {x}\n{I}for v in [{x}, {z}, 1]:\n{I}    with {C}:\n{I}        t = {binop_expr(R, ["t", "v"])}\n{I}return t\n'
+    if shape == 'listcomp':
+        return f'{I}with {C}:\n{I}    ys = [fp.round({binop_expr(R, ["v", z])}) for v in [{x}, {z}]]\n{I}with {D}:\n{I}    y = ys[0] + ys[1]\n{I}return y\n'
+    if shape == 'ifexpr': return f'{I}with {C}:\n{I}    y = fp.round({x}) if {x} < {z} else {e()}\n{I}return y\n'
+    if shape == 'nested-with': return f'{I}with {D}:\n{I}    t = {e()}\n{I}    with {C}:\n{I}        u = fp.round(t)\n{I}    y = {binop_expr(R, ["u", "t"])}\n{I}return y\n'
+    if shape == 'while-acc':
+        return f'{I}i = 0\n{I}t = {x}\n{I}while i < 2:\n{I}    with {C}:\n{I}        t = {binop_expr(R, ["t", z])}\n{I}    i = i + 1\n{I}return t\n'
+    if shape == 'while-cond':      # arithmetic in the loop CONDITION (re-evaluated every iteration: it must never be hoisted out of the loop)
+        cnt = R.choice(['fp.SINT8', 'fp.UINT8', 'fp.FixedContext(True, 0, 6, fp.RM.RTZ, fp.OV.SATURATE)'])
+        cond = R.choice(['(i + 1) <= {n}', '(i * 2) < {n}', '(i - {n}) < 0', '-i > -{n}', 'abs(i - {n}) > 0', '(i + 1) <= {n} and (i + i) < 9'])
+        return (f'{I}with {C}:\n{I}    i = 0\n{I}    t = {x}\n{I}    while {cond.format(n=R.choice([2, 3]))}:\n{I}        t = {binop_expr(R, ["t", z])}\n{I}        with {cnt}:\n{I}            i = i + 1\n{I}return t\n')
+    if shape == 'tuple-bind': return f'{I}with {C}:\n{I}    a, b = ({e()}, {e()})\n{I}with {D}:\n{I}    y = a - b\n{I}return y\n'
+    if shape == 'literal-set':
+        lit = R.choice(['1', '0.5', '3', '-2', '0', 'fp.hexfloat(\'0x1.8p1\')', 'fp.rational(3, 4)', 'fp.digits(5, -1, 2)', '100'])
+        return f'{I}with fp.REAL:\n{I}    k = {lit}\n{I}    t = k * 2\n{I}with {C}:\n{I}    y = fp.round(t) + {x}\n{I}return y\n'
+    if shape == 'minmax-clamp': return f'{I}with {C}:\n{I}    t = max(min({x}, {R.choice(["100", "1", z])}), {R.choice(["-100", "0", "-1"])})\n{I}    y = fp.round(t)\n{I}return y\n'
+    if shape == 'if1-update': return f'{I}with {C}:\n{I}    y = fp.round({x})\n{I}if {x} < {z}:\n{I}    with {D}:\n{I}        y = {binop_expr(R, ["y", z])}\n{I}return y\n'
+    if shape == 'unary-misc':
+        us = [f'fp.logb({x})', f'fp.exp2({z})', f'2 ** {x}', f'fp.sqrt(abs({x}))', f'fp.floor({x})', f'fp.ceil({x})', f'fp.trunc({z})', 'fp.const_pi()',
+              f'fp.logb({x}) + 1', f'{x} * (2 ** {z})', f'fp.copysign({x}, {z})', f'fp.fmin({x}, {z})', f'fp.exp2({x}) * {z}', f'fp.logb({z}) - fp.logb({x})', f'fp.roundint({x})', f'fp.nearbyint({z})']
+        # four of them per program, all of them within four programs
+        pick = [us[(4 * ordinal + i) % len(us)] for i in range(4)]
+        return (f'{I}with {C}:\n' + ''.join(f'{I}    t{i} = {u}\n' for i, u in enumerate(pick)) + f'{I}with {D}:\n' + ''.join(f'{I}    y{i} = fp.round(t{i})\n' for i in range(4))
+                + f'{I}    y = (y0 + y1) + (y2 + y3)\n{I}return y\n')
+    if shape == 'inner-finer':     # the result is a member of the argument's format, an operand of the outermost operation is not
+        es = [f'({x} + 0.5) * 2', f'({x} * 0.5) * 2', f'({x} * 3) - ({x} * 2)', f'({x} - 0.5) + 0.5', f'(({x} + {z}) * 0.5) * 2', f'({x} * 0.25) * 4', f'({x} * {x}) - ({x} * {x})',
+              f'abs({x} * 0.5) * 2', f'-({x} * 0.5) * 2', f'min({x} * 0.5, 1) * 2', f'fp.fma({x} * 0.5, 2, 0)', f'({x} * 256) * 0.00390625', f'({x} + {z}) - {z}', f'max({x} - 0.25, 0) * 4']
+        pick = [es[(4 * ordinal + i) % len(es)] for i in range(4)]
+        return (f'{I}with fp.REAL:\n' + ''.join(f'{I}    t{i} = {e}\n' for i, e in enumerate(pick)) + f'{I}with {D}:\n' + ''.join(f'{I}    y{i} = fp.round(t{i})\n' for i in range(4))
+                + f'{I}with fp.REAL:\n{I}    y = (y0 + y1) + (y2 + y3)\n{I}return y\n')
+    if shape == 'outer-scope':     # no `with` around the operations: the context of the decorator (or of the pinning) rounds them
+        return f'{I}t = {e()}\n{I}u = {binop_expr(R, ["t", z])}\n{I}with {C}:\n{I}    v = fp.round(u)\n{I}y = v + {x}\n{I}return y\n'
+    if shape == 'clamp-float':     # a float operand (NaN and infinities included) clamped into the range of a fixed-point target
+        lo, hi = R.choice([('-4', '4'), ('0', '7'), ('-1', '1'), ('-128', '127'), ('0', '255')])
+        cl = R.choice([f'max(min({x}, {hi}), {lo})', f'min(max({x}, {lo}), {hi})', f'min({hi}, max({lo}, {x}))'])
+        post = R.choice(['', ' * 2', ' + 1', ' - 1', ' * 0.5'])
+        return f'{I}with fp.REAL:\n{I}    t = {cl}{post}\n{I}with {C}:\n{I}    y = fp.round(t)\n{I}return y\n'
+    if shape == 'list-arg':        # the first argument is a LIST of members of its format
+        bo = R.choice(['t + v', 't - v', 'max(t, v)', 'min(t, v)', 'v - t', 'abs(v) + t'])
+        return (f'{I}with {C}:\n{I}    t = {x}[0]\n{I}    for v in {x}:\n{I}        t = {bo}\n{I}    s = {R.choice([f"sum({x})", f"max({x})", f"{x}[1] * {x}[2]", f"{x}[len({x}) - 1]"])}\n'
+                f'{I}with {D}:\n{I}    y = fp.round(t) + fp.round(s)\n{I}return y\n')
+    if shape == 'tuple-arg':       # the first argument is a PAIR
+        return (f'{I}a, b = {x}\n{I}with {C}:\n{I}    t = {binop_expr(R, ["a", "b"])}\n{I}    u = {binop_expr(R, ["a", "b", z])}\n{I}with {D}:\n{I}    y = fp.round(t) - fp.round(u)\n{I}return y\n')
+    if shape == 'list-misc':
+        return (f'{I}with {C}:\n{I}    xs = [{x}, {z}, 1]\n{I}    n = len(xs)\n{I}    d = fp.dim(xs)\n{I}    s0 = fp.size(xs, 0)\n{I}    t = {x}\n{I}    for i in range(1, 3):\n{I}        t = t + xs[i] * i\n'
+                f'{I}    _, c = ({x}, {z})\n{I}    for j in range(2):\n{I}        t = t - j\n{I}    t = t + n + d + s0 - c\n{I}with {D}:\n{I}    y = fp.round(t)\n{I}return y\n')
+    if shape == 'list-typed':
+        return (f'{I}with {C}:\n{I}    xs = [{x}, {z}, {e()}, 1]\n{I}    s = sum(xs)\n{I}    m = {R.choice(["max(xs)", "min(xs)"])}\n{I}    us = xs[0:2]\n{I}    ys = fp.empty(2)\n'
+                f'{I}    ys[0] = {x}\n{I}    ys[1] = m\n{I}    t = s\n{I}    for i in range(len(us)):\n{I}        t = t - us[i]\n{I}    for i, v in enumerate(xs):\n{I}        t = max(t, v)\n'
+                f'{I}    for a, b in zip(ys, us):\n{I}        t = t + (a - b)\n{I}with {D}:\n{I}    y = fp.round(t)\n{I}return y\n')
+    if shape == 'call':
+        return f'{I}with {C}:\n{I}    t = HELPER({x}) + {z}\n{I}with {D}:\n{I}    y = fp.round(t) - HELPER({z})\n{I}return y\n'
+    if shape == 'assert-bool':
+        return (f'{I}b = {x} <= {z}\n{I}assert {x} == {x}\n{I}pass\n{I}with {C}:\n{I}    t = {e()}\n{I}if b and not ({x} < 0):\n{I}    with {D}:\n{I}        t = fp.round(t)\n{I}return t\n')
+    if shape == 'foreign-const':
+        ks = ['K_INT', 'K_FLOAT', 'K_FRAC', 'K_FV', 'K_RF', 'ka', 'K_LIST[1]', 'K_NS.c']
+        pick = [ks[(4 * ordinal + i) % len(ks)] for i in range(4)]
+        return (f'{I}with fp.REAL:\n{I}    ka, kb = K_TUP\n' + ''.join(f'{I}    t{i} = {x} * {k}\n' for i, k in enumerate(pick)) + f'{I}    if K_BOOL:\n{I}        t0 = t0 + 1\n{I}with {C}:\n'
+                + ''.join(f'{I}    y{i} = fp.round(t{i})\n' for i in range(4)) + f'{I}with fp.REAL:\n{I}    y = (y0 + y1) + (y2 + y3)\n{I}return y\n')
+    if shape == 'set-arith':
+        a, b = R.choice(['1', '3', '-2', '0.5', '0', '-0.0']), R.choice(['2', '-1', '0.25', '0', '4'])
+        op = R.choice(['+', '-', '*'])
+        return (f'{I}with fp.REAL:\n{I}    k = {a}\n{I}    j = {b}\n{I}    t = (k {op} j) * 1\n{I}    u = -t\n{I}    w2 = abs(u) + max(k, j)\n{I}with {C}:\n{I}    y = fp.round(w2) + fp.round(t)\n{I}with {D}:\n{I}    y = y * {x}\n{I}return y\n')
+    raise ValueError(shape)
+
+# ---- targets fitted to the EXACT range of the value they store
+#
+# The rounding axis deletes a rounding when it can prove that every value of the operand's format is a member of the target.  The
+# sharpest test of the bound arithmetic behind that proof is a target whose bounds are the exact range of the stored expression --
+# computed HERE, by interval arithmetic that shares nothing with the analysis -- and the same target one notch tighter on either
+# side, fed with the inputs that attain both ends of the range.
+
+def _fit_range(spec):
+    """(lo, hi, quantum exponent) of a bounded fixed-point argument format"""
+    c = spec_obj(spec)
+    k, p = spec
+    def bound(sgn):
+        try: return c.maxval(sgn).as_rational()
+        except ValueError: return Fraction(0)           # a format without values on that side of zero
+    return bound(True), bound(False), (p['scale'] if k in ('tc', 'sm') else p['nmin'] + 1)
+
+def _q(e): return Fraction(2) ** e
+
+FIT_OPS = ['min-k', 'max-k', 'k-min', 'k-max', 'clamp', 'clamp2', 'clamp3', 'min', 'max', 'add', 'sub', 'neg', 'abs', 'mul-k', 'mul', 'fma', 'add-k', 'k-sub']
+FIT_HOWS = ['exact', 'hi-1', 'lo+1', 'tc-fit', 'exact', 'hi+1', 'tc-fit-1', 'lo-1', 'coarser', 'exact', 'finer']
+
+def fit_expr(R, leaves, depth=0, top=None):
+    """(text, lo, hi, quantum exponent, constants used): an expression over bounded operands with its exact range"""
+    def leaf():
+        return R.choice(leaves) + ([],)
+    def const_near(lo, hi, q):
+        cands = [lo + _q(q), hi - _q(q), (lo + hi) / 2 // _q(q) * _q(q), Fraction(0), Fraction(1), Fraction(-1), hi, lo, hi / 2 // _q(q) * _q(q), Fraction(5), Fraction(100), Fraction(-20)]
+        k = R.choice(cands)
+        qq = q
+        while k % _q(qq) != 0: qq -= 1
+        txt = str(int(k)) if k.denominator == 1 else repr(float(k))
+        return (txt, k, k, qq, [k])
+    if depth >= 2 or (depth == 1 and R.random() < 0.5): return leaf()
+    a = fit_expr(R, leaves, depth + 1)
+    op = top if (top and depth == 0) else R.choice(FIT_OPS + ['sub'])
+    ta, la, ha, qa, ka = a
+    if op in ('min-k', 'max-k', 'k-min', 'k-max', 'add-k', 'k-sub', 'mul-k', 'clamp', 'clamp2', 'clamp3'):
+        tk, k, _, qk, kk = const_near(la, ha, qa)
+        q = min(qa, qk)
+        if op == 'min-k': return (f'min({ta}, {tk})', min(la, k), min(ha, k), q, ka + kk)
+        if op == 'k-min': return (f'min({tk}, {ta})', min(la, k), min(ha, k), q, ka + kk)
+        if op == 'max-k': return (f'max({ta}, {tk})', max(la, k), max(ha, k), q, ka + kk)
+        if op == 'k-max': return (f'max({tk}, {ta})', max(la, k), max(ha, k), q, ka + kk)
+        if op == 'add-k': return (f'({ta} + {tk})', la + k, ha + k, q, ka + kk)
+        if op == 'k-sub': return (f'({tk} - {ta})', k - ha, k - la, q, ka + kk)
+        if op == 'mul-k':
+            m = R.choice([2, 3, -1, -2, 4])
+            lo, hi = sorted((la * m, ha * m))
+            return (f'({ta} * {m})', lo, hi, qa, ka)
+        tk2, k2, _, qk2, kk2 = const_near(la, ha, qa)
+        LO, HI = sorted((k, k2)); tLO, tHI = (tk, tk2) if k <= k2 else (tk2, tk)
+        q = min(qa, qk, qk2)
+        lo, hi = max(min(la, HI), LO), max(min(ha, HI), LO)
+        if op == 'clamp': return (f'max(min({ta}, {tHI}), {tLO})', lo, hi, q, ka + kk + kk2)
+        if op == 'clamp2': return (f'min(max({ta}, {tLO}), {tHI})', min(max(la, LO), HI), min(max(ha, LO), HI), q, ka + kk + kk2)
+        return (f'max({tLO}, min({tHI}, {ta}))', lo, hi, q, ka + kk + kk2)
+    if op == 'neg': return (f'(-{ta})', -ha, -la, qa, ka)
+    if op == 'abs':
+        lo = la if la >= 0 else (-ha if ha <= 0 else Fraction(0))
+        return (f'abs({ta})', lo, max(abs(la), abs(ha)), qa, ka)
+    b = fit_expr(R, leaves, depth + 1)
+    tb, lb, hb, qb, kb = b
+    q = min(qa, qb)
+    if op == 'min': return (f'min({ta}, {tb})', min(la, lb), min(ha, hb), q, ka + kb)
+    if op == 'max': return (f'max({ta}, {tb})', max(la, lb), max(ha, hb), q, ka + kb)
+    if op == 'add': return (f'({ta} + {tb})', la + lb, ha + hb, q, ka + kb)
+    if op == 'sub': return (f'({ta} - {tb})', la - hb, ha - lb, q, ka + kb)
+    ps = [la * lb, la * hb, ha * lb, ha * hb]
+    if op == 'mul': return (f'({ta} * {tb})', min(ps), max(ps), qa + qb, ka + kb)
+    c = R.choice(leaves) + ([],)
+    tc_, lc, hc, qc, kc = c
+    return (f'fp.fma({ta}, {tb}, {tc_})', min(ps) + lc, max(ps) + hc, min(qa + qb, qc), ka + kb + kc)
+
+def fit_target(R, lo, hi, q, how=None):
+    """(how, spec): a fixed-point target that holds [lo, hi] exactly, or one notch short of it on one side"""
+    how = how or R.choice(['exact', 'exact', 'hi-1', 'lo+1', 'hi+1', 'lo-1', 'coarser', 'tc-fit', 'tc-fit', 'tc-fit-1', 'finer'])
+    u = _q(q)
+    if how.startswith('tc-fit'):
+        signed = lo < 0
+        n = 1
+        def fits(n): return (-(1 << (n - 1)) * u <= lo and hi <= ((1 << (n - 1)) - 1) * u) if signed else hi <= ((1 << n) - 1) * u
+        while not fits(n) and n < 80: n += 1
+        if how == 'tc-fit-1': n = max(1 if not signed else 2, n - 1)
+        return how, T_tc(signed, q, max(n, 2 if signed else 1), R.choice(RMS_U), R.choice(OVS_FIX))
+    nmin = q - 1
+    if how == 'hi-1': hi -= u
+    if how == 'lo+1': lo += u
+    if how == 'hi+1': hi += u
+    if how == 'lo-1': lo -= u
+    if how == 'coarser': nmin += 1; u *= 2; hi = hi // u * u; lo = -((-lo) // u * u)
+    if how == 'finer': nmin -= 2; u /= 4
+    hi, lo = max(hi, Fraction(0)), min(lo, Fraction(0))
+    return how, T_mpbfix(nmin, (int(hi / u), nmin + 1), (int(lo / u), nmin + 1), R.choice(RMS_U), R.choice(OVS_FIX), R.choice([True, True, True, False]))
+
+FIT_GUARD_FORMS = ['lt', 'le', 'gt', 'ge', 'lt-r', 'le-r', 'gt-r', 'ge-r', 'not-gt', 'not-lt', 'and', 'or', 'and2', 'or2', 'eq', 'ne', 'chain', 'not-and', 'not-or']
+
+def fit_guard(R, leaves, form=None):
+    """(condition text, ranges of the operands where it holds, ranges where it fails): comparisons of an operand against constants of
+    its grid -- the analysis narrows an operand's bound inside a guarded branch, and the exact narrowed range is computed here"""
+    v, lo, hi, q = leaves[0]
+    u = _q(q)
+    def grid_const():
+        k = R.choice([lo + u, hi - u, Fraction(0), (lo + hi) / 2 // u * u, hi / 2 // u * u, lo / 2 // u * u, u, -u, hi, lo, Fraction(1), Fraction(5), Fraction(-3)])
+        return k // u * u
+    def txt(k): return str(int(k)) if k.denominator == 1 else repr(float(k))
+    K = grid_const()
+    full = {v: (lo, hi)}
+    def rng(a, b): return (max(a, lo), min(b, hi))
+    form = form or R.choice(FIT_GUARD_FORMS)
+    k = txt(K)
+    if form == 'lt': return f'{v} < {k}', {v: rng(lo, K - u)}, {v: rng(K, hi)}
+    if form == 'le': return f'{v} <= {k}', {v: rng(lo, K)}, {v: rng(K + u, hi)}
+    if form == 'gt': return f'{v} > {k}', {v: rng(K + u, hi)}, {v: rng(lo, K)}
+    if form == 'ge': return f'{v} >= {k}', {v: rng(K, hi)}, {v: rng(lo, K - u)}
+    if form == 'lt-r': return f'{k} < {v}', {v: rng(K + u, hi)}, {v: rng(lo, K)}
+    if form == 'le-r': return f'{k} <= {v}', {v: rng(K, hi)}, {v: rng(lo, K - u)}
+    if form == 'gt-r': return f'{k} > {v}', {v: rng(lo, K - u)}, {v: rng(K, hi)}
+    if form == 'ge-r': return f'{k} >= {v}', {v: rng(lo, K)}, {v: rng(K + u, hi)}
+    if form == 'not-gt': return f'not ({v} > {k})', {v: rng(lo, K)}, {v: rng(K + u, hi)}
+    if form == 'not-lt': return f'not ({v} < {k})', {v: rng(K, hi)}, {v: rng(lo, K - u)}
+    if form == 'eq': return f'{v} == {k}', {v: rng(K, K)}, full
+    if form == 'ne': return f'{v} != {k}', full, {v: rng(K, K)}
+    K2 = grid_const()
+    LO, HI = sorted((K, K2))
+    if form == 'and': return f'{v} < {txt(HI)} and {v} > {txt(LO)}', {v: rng(LO + u, HI - u)}, full
+    if form == 'or': return f'{v} > {txt(HI)} or {v} < {txt(LO)}', full, {v: rng(LO, HI)}
+    if form == 'not-and': return f'not ({v} <= {txt(HI)} and {v} >= {txt(LO)})', full, {v: rng(LO, HI)}
+    if form == 'not-or': return f'not ({v} >= {txt(HI)} or {v} <= {txt(LO)})', {v: rng(LO + u, HI - u)}, full
+    if form == 'chain': return f'{txt(LO)} <= {v} <= {txt(HI)}', {v: rng(LO, HI)}, full
+    if len(leaves) > 1:
+        w, lw, hw, qw = leaves[1]
+        uw = _q(qw)
+        Kw = R.choice([lw + uw, hw - uw, Fraction(0), hw / 2 // uw * uw]) // uw * uw
+        fullw = {v: (lo, hi), w: (lw, hw)}
+        if form == 'and2': return f'{v} <= {k} and {w} >= {txt(Kw)}', {v: rng(lo, K), w: (max(Kw, lw), hw)}, fullw
+        return f'{v} > {k} or {w} < {txt(Kw)}', fullw, {v: rng(lo, K), w: (max(Kw, lw), hw)}
+    return f'{v} < {k}', {v: rng(lo, K - u)}, {v: rng(K, hi)}
+
+FIT_ARGS = None
+def fit_program(R, nargs, ordinal=0):
+    """(argument specs, target spec, body with {C}, constants of the expression, tag)"""
+    global FIT_ARGS
+    if FIT_ARGS is None: FIT_ARGS = [s for s in TYPED_ARGS if s[0] in ('tc', 'sm', 'mpbfix')]
+    a0 = R.choice(FIT_ARGS)
+    aspecs = [a0] + [a0 if R.random() < 0.5 else R.choice(FIT_ARGS) for _ in range(nargs - 1)]
+    leaves = []
+    for v, sp in zip(['x', 'z', 'w'], aspecs):
+        lo, hi, q = _fit_range(sp)
+        leaves.append((v, lo, hi, q))
+    I = '    '
+    if ordinal % 3 == 2:
+        # guarded stores: each target is fitted to the range the operands have INSIDE the branch; four guards per program, every
+        # form of guard within five programs
+        body, consts, extra_targets, hows = '', [], [], []
+        for gi in range(4):
+            form = FIT_GUARD_FORMS[(4 * (ordinal // 3) + gi) % len(FIT_GUARD_FORMS)]
+            if form in ('and2', 'or2') and len(leaves) < 2: form = R.choice(['and', 'or'])
+            for _ in range(20):
+                cond, then_r, else_r = fit_guard(R, leaves, form)
+                which = R.choice(['then', 'else']) if form not in ('and', 'not-or', 'and2', 'eq', 'chain') else R.choice(['then', 'then', 'then', 'else'])
+                if form in ('or', 'not-and', 'or2', 'ne'): which = R.choice(['else', 'else', 'else', 'then'])
+                nar = then_r if which == 'then' else else_r
+                if all(a <= b for a, b in nar.values()): break
+            else:
+                nar = {}
+            nleaves = [(v, nar.get(v, (lo, hi))[0], nar.get(v, (lo, hi))[1], q) for v, lo, hi, q in leaves]
+            if R.random() < 0.4: text, lo, hi, q, ks = nleaves[0] + ([],)
+            else: text, lo, hi, q, ks = fit_expr(R, nleaves, 1)
+            how, tgt = fit_target(R, lo, hi, q)
+            extra_targets.append(tgt); hows.append(how)
+            fitted = f'{I}    with fp.REAL:\n{I}        t{gi} = {text}\n{I}    with {{F{gi}}}:\n{I}        y{gi} = fp.round(t{gi})\n'
+            other = f'{I}    with {{D}}:\n{I}        y{gi} = fp.round(x)\n'
+            body += f'{I}if {cond}:\n' + (fitted if which == 'then' else other) + f'{I}else:\n' + (other if which == 'then' else fitted)
+            consts += ks + [lo, hi] + [b for r in (then_r, else_r) for ab in r.values() for b in ab]
+        body += f'{I}with fp.REAL:\n{I}    y = (y0 + y1) + (y2 + y3)\n{I}return y\n'
+        return aspecs, extra_targets[0], body, consts, 'guards', extra_targets
+    # four stores per program, each into a target fitted to its own expression; the top-level operator and the kind of fit cycle, so
+    # every operator meets an exact / a tighter / a two's-complement fit within a few programs
+    k = ordinal - ordinal // 3          # the ordinal among the unguarded programs
+    body, consts, targets = '', [], []
+    style = R.choice(['real', 'real', 'direct', 'chain'])
+    for gi in range(4):
+        top = FIT_OPS[(4 * k + gi) % len(FIT_OPS)]
+        for _ in range(20):
+            text, lo, hi, q, ks = fit_expr(R, leaves, 0, top)
+            if hi - lo < Fraction(2) ** 70 and q > -60: break
+        how, tgt = fit_target(R, lo, hi, q, FIT_HOWS[(k + gi) % len(FIT_HOWS)] if gi < 3 else None)
+        targets.append(tgt); consts += ks + [lo, hi]
+        if style == 'direct' and gi % 2: body += f'{I}with {{F{gi}}}:\n{I}    y{gi} = {text}\n'
+        elif style == 'chain' and gi % 2: body += f'{I}with fp.REAL:\n{I}    t{gi} = {text}\n{I}with {{F{gi}}}:\n{I}    u{gi} = fp.round(t{gi})\n{I}with {{D}}:\n{I}    y{gi} = fp.round(u{gi})\n'
+        else: body += f'{I}with fp.REAL:\n{I}    t{gi} = {text}\n{I}with {{F{gi}}}:\n{I}    y{gi} = fp.round(t{gi})\n'
+    body += f'{I}with fp.REAL:\n{I}    y = (y0 + y1) + (y2 + y3)\n{I}return y\n'
+    return aspecs, targets[0], body, consts, 'stores', targets
+
+TYPED_MODULE_CONSTS = ('K_INT = 3\nK_FLOAT = 0.75\nfrom fractions import Fraction as _Fr\nK_FRAC = _Fr(5, 4)\nK_FV = Float(s=False, exp=-1, c=3)\nK_RF = RealFloat(s=True, exp=0, c=2)\n'
+                       'K_TUP = (2, 5)\nK_LIST = [1, 7]\nK_BOOL = True\nclass K_NS:\n    c = 6\n')
+
+# programs that broke the rounding axis in the past, always present: (shape, body, argument specs, C, D, pass)
+TYPED_FIXED = [
+    ('roundtrip', None, [T_tc(True, 0, 16)], T_ieee(5, 16), T_tc(True, 0, 16, 'RNE', 'SATURATE')),       # int16 -> FP16 -> saturating int16
+    ('roundtrip', None, [T_tc(True, 0, 8)], T_ieee(3, 6), T_tc(True, 0, 8, 'RNE', 'WRAP')),
+    ('roundtrip', None, [T_tc(True, 0, 16)], T_ieee(5, 16), T_mpbfix(-1, (32767, 0), (-32768, 0), 'RNE', 'SATURATE', True)),
+    ('roundtrip', None, [T_tc(False, 0, 8)], T_ieee(3, 6), T_mpbfix(-1, (255, 0), (0, 0), 'RNE', 'WRAP', True)),
+    ('op', 'x - z', [T_tc(False, 0, 8), T_tc(False, 0, 8)], T_tc(False, 0, 16), None),                      # uint8 - uint8 under uint16 (wraps)
+    ('op', 'x - z', [T_tc(False, 0, 8), T_tc(False, 0, 8)], T_tc(False, 0, 16, 'RNE', 'SATURATE'), None),
+    ('op', 'abs(x)', [T_tc(True, -3, 8)], T_tc(True, -3, 8), None),                                          # F28
+    ('op', '-x', [T_tc(True, 0, 8)], T_tc(True, 0, 8, 'RTZ', 'SATURATE'), None),
+    ('roundtrip', None, [T_ieee(8, 32)], T_mp(11), T_ieee(8, 32)),                                           # F10
+    ('roundtrip', None, [T_ef(4, 8, False, 'MAX_VAL')], T_ieee(4, 8), T_ef(4, 8, False, 'MAX_VAL')),         # F30
+]
+
+def typed_members(R, actx, others, extra=()):
+    """values of the argument format: both extremes first, then zeros, the smallest magnitudes, the neighbours of the extremes, the
+    bounds of the other contexts of the program brought into the format, and random members"""
+    out, seen = [], set()
+    def add(v):
+        try:
+            r = actx.round(v)
+        except Exception:
+            return
+        key = (r.isnan, r.isinf, r.s, None if r.is_nar() else r.as_rational())
+        if key not in seen:
+            seen.add(key); out.append(r)
+    for s in (False, True):
+        try: add(actx.maxval(s))
+        except Exception: pass
+    add(Float(c=0)); add(Float(c=0, s=True))
+    for nm in ('minval', 'min_subnormal'):
+        try:
+            m = getattr(actx, nm)(); add(m); add(-m.as_rational())
+        except Exception: pass
+    try:
+        mx, mn = actx.maxval().as_rational(), actx.maxval(True).as_rational()
+        ulp = abs(mx) / 64 if mx else Fraction(1)
+        for v in (mx - ulp, mn + ulp, mx / 2, mn / 2, mx - 1, mn + 1): add(v)
+    except Exception: pass
+    for o in others:
+        for s in (False, True):
+            try:
+                b = o.maxval(s).as_rational()
+                for v in (b, b - Fraction(1, 2), b + Fraction(1, 2), b * Fraction(2047, 2048), b * Fraction(4095, 4096)): add(v)
+            except Exception: pass
+    for sp in (Float(isnan=True), Float(isinf=True), Float(isinf=True, s=True)): add(sp)
+    extremes = out[:6]
+    for v in extra: add(v)
+    for _ in range(10): add(Fraction(R.randint(-3000, 3000), 1 << R.randint(0, 10)))
+    for q in (Fraction(1), Fraction(-1), Fraction(3), Fraction(5), Fraction(3, 8), Fraction(1) + Fraction(1, 1 << 23), Fraction(16777217, 16777216)): add(q)
+    return extremes, out
+
+_UNARY_MINUS = re.compile(r'(^|[(=,\[\s])-\s*[a-z(]')
+
+def typed_shape_of(texts, body, want, got):
+    if any(t.startswith('fp.MPFloatContext(') for t in texts): mp = True
+    else: mp = False
+    if want.replace('(n zero 0)', '(n zero Z)').replace('(n zero 1)', '(n zero Z)') == got.replace('(n zero 0)', '(n zero Z)').replace('(n zero 1)', '(n zero Z)'):
+        # only the sign of a zero differs: C14's F29 where the zero comes out of an exact negation / product
+        if _UNARY_MINUS.search(body) or '*' in body or 'fma' in body: return 'round-axis-neg-zero-from-exact-op'
+        return 'round-axis-zero-sign'
+    if mp: return 'round-axis-exp-unbounded-target'
+    if 'abs(' in body: return 'round-axis-abs-asymmetric-bounds'
+    if any(t in want + got for t in ('nan', 'inf')): return 'round-axis-special-value-of-a-rounding-result'
+    return 'round-axis-other'
+
+def typed_one(rep, R, tmp, ti, quick, lines, meta):
+    from fpy2.types import RealType
+    ordinal = 0
+    if ti < len(TYPED_FIXED):
+        shape, fixed_body, aspecs, Cs, Ds = TYPED_FIXED[ti]
+        Ds = Ds or Cs
+    else:
+        j = ti - len(TYPED_FIXED)
+        n_s = len(TYPED_SHAPES)
+        shape = TYPED_SHAPES[j % n_s] if j < 2 * n_s else R.choice(TYPED_SHAPES)
+        ordinal = ((j // n_s) * TYPED_SHAPES.count(shape) + TYPED_SHAPES[:j % n_s].count(shape)) if j < 2 * n_s else R.randint(0, 7)
+        fixed_body = None
+        nargs = R.choice([1, 2, 2, 2, 3])
+        if shape in ('list-arg', 'tuple-arg'): nargs = max(nargs, 2)
+        a0 = R.choice(TYPED_ARGS)
+        aspecs = [a0] + [a0 if R.random() < 0.5 else R.choice(TYPED_ARGS) for _ in range(nargs - 1)]
+        Cs = rand_target(R, aspecs)
+        fit = None; fit_extra = []
+        if shape == 'fit-store':
+            aspecs, Cs, fit_body, fit_consts, fit_how, fit_extra = fit_program(R, nargs, ordinal)
+            fit = True
+        if shape == 'inner-finer':
+            aspecs = [R.choice([a for a in TYPED_ARGS if a[0] in ('tc', 'sm', 'mpfix', 'mpbfix')]) for _ in aspecs]
+            Cs = related(R, aspecs[0]) if R.random() < 0.5 else aspecs[0]        # `insert_round` is aimed at the argument's own format (or a relative)
+        if shape == 'while-cond':
+            # the counter's format is narrow, the loop's context holds every value of the condition's arithmetic
+            Cs = R.choice([T_tc(True, 0, 16, R.choice(RMS_U), R.choice(OVS_FIX)), T_tc(True, 0, 32), T_mpfix(-1, 'RTZ', False), T_ieee(8, 32), T_ieee(11, 64), T_mpfix(-4)])
+        if shape == 'clamp-float':
+            fl = [a for a in TYPED_ARGS if a[0] in ('ieee', 'mps', 'mp', 'ef', 'mpb')]
+            aspecs = [R.choice(fl) for _ in aspecs]
+            Cs = R.choice([T_mpbfix(-30, (1 << 38, -30), (-(1 << 38), -30), R.choice(RMS_U), R.choice(OVS_FIX), R.choice([True, False])),
+                           T_tc(True, -24, 40, R.choice(RMS_U), R.choice(OVS_FIX)), T_mpfix(-30, 'RNE', True, R.choice([True, False]), R.choice([True, False])),
+                           T_mpfix(-12, 'RTZ', R.choice([True, False])), T_tc(True, -8, 24, 'RNE', 'SATURATE'), T_sm(-10, 20)])
+        Ds = related(R, aspecs[0]) if shape in ('roundtrip',) or R.random() < 0.5 else rand_target(R, aspecs)
+    vars_ = ['x', 'z', 'w'][:len(aspecs)]
+    name = f't{ti}'
+    pre, used = '', {}
+    def ctext(spec, tag):
+        nonlocal pre
+        t, writable = spec_text(spec, named=R.random() < 0.5)
+        if writable and R.random() < 0.55: return t
+        if t not in used:
+            used[t] = f'{tag}_{name}'; pre += f'{tag}_{name} = {t}\n'
+        return used[t]
+    C, D = ctext(Cs, 'C'), ctext(Ds, 'D')
+    if fixed_body is not None:
+        body = f'    with {C}:\n        y = {fixed_body}\n    return y\n'
+    elif shape == 'fit-store':
+        body = fit_body.replace('{C}', C).replace('{D}', D)
+        for gi, tsp in enumerate(fit_extra): body = body.replace('{F%d}' % gi, ctext(tsp, f'F{gi}'))
+        rep.count('typed:fit-target:' + fit_how)
+    else:
+        try:
+            body = typed_body(R, shape, vars_, C, D, ordinal)
+        except Exception as e:
+            rep.count(f'typed:body-error:{type(e).__name__}'); return
+    outer = R.choice(['real', 'real', 'fp64', 'mono64', 'none'])
+    deco = {'real': '@fp.fpy(ctx=fp.REAL)', 'fp64': '@fp.fpy(ctx=fp.FP64)', 'mono64': '@fp.fpy', 'none': '@fp.fpy'}[outer]
+    agg = {'list-arg': 'list', 'tuple-arg': 'tuple'}.get(shape) if fixed_body is None else None
+    ann = {None: 'fp.Real', 'list': 'list[fp.Real]', 'tuple': 'tuple[fp.Real, fp.Real]'}
+    params = ', '.join(f'{v}: {ann[agg if i == 0 else None]}' for i, v in enumerate(vars_))
+    if shape == 'foreign-const': pre += TYPED_MODULE_CONSTS
+    if shape == 'call':
+        hb = R.choice(['a * a', 'abs(a)', '-a', 'a + 1', 'fp.round(a)'])
+        pre += f'@fp.fpy\ndef h_{name}(a: fp.Real) -> fp.Real:\n    with {D}:\n        r = {hb}\n    return r\n'
+        body = body.replace('HELPER', f'h_{name}')
+    text = HEADER + pre + ('\n' if pre else '') + f'{deco}\ndef {name}({params}) -> fp.Real:\n' + body
+    path = os.path.join(tmp, f'{name}.py')
+    with open(path, 'w') as fh: fh.write(text)
+    try:
+        fn = getattr(load_module(path, f'fpyverif_C10_{name}'), name)
+    except Exception as e:
+        rep.count(f'typed:frontend-rejected:{shape}:{type(e).__name__}'); return
+    try:
+        argctxs = [spec_obj(s) for s in aspecs]
+        octx = [spec_obj(Cs), spec_obj(Ds)] + ([spec_obj(t) for t in fit_extra[1:]] if shape == 'fit-store' and fixed_body is None else [])
+        from fpy2.types import ListType, TupleType
+        atypes = [RealType(c) for c in argctxs]
+        if agg == 'list': atypes[0] = ListType(atypes[0])
+        if agg == 'tuple': atypes[0] = TupleType(atypes[0], atypes[0])
+        pinned = guarded(lambda: S.monomorphize(fn, fp.FP64 if outer == 'mono64' else None, atypes))
+    except Exception as e:
+        rep.count(f'typed:setup-rejected:{shape}:{type(e).__name__}:{str(e)[:80]}'); return
+    rep.count('typed:' + shape)
+    texts = [spec_text(Cs)[0], spec_text(Ds)[0]]
+    afs = [spec_text(s)[0] for s in aspecs]
+    # the rewrites: elim_round, insert_round into related targets, and the documented follow-ups (simplify; one after the other)
+    variants = []
+    def attempt(label, thunk, base):
+        try:
+            xf = guarded(thunk)
+        except Hang:
+            rep.count(f'hang:{label}'); rep.sample({'hang': label, 'program': text, 'arg_formats': afs}, cap=4); return None
+        except Exception as e:
+            rep.count(f'declined:{label.split("[")[0]}:{type(e).__name__}'); return None
+        if xf.ast.is_equiv(base.ast):
+            rep.count(f'{label.split("[")[0]}:unchanged'); return None
+        rep.count(f'{label.split("[")[0]}:changed')
+        variants.append((label, xf)); return xf
+    er = attempt('elim_round', lambda: S.elim_round(pinned), pinned)
+    if er is not None: attempt('elim_round > simplify', lambda: S.simplify(er), er)
+    tspecs = [Cs, Ds, related(R, aspecs[0])]
+    if R.random() < 0.2: tspecs[1] = T_mpk(R.choice([3, 8, 24]), R.choice([1, 3]))     # a stochastic target: `insert_round` must refuse it
+    for tk, tsp in enumerate(tspecs[: (2 if quick else 3)]):
+        try:
+            tctx = spec_obj(tsp)
+        except Exception:
+            continue
+        ttxt = spec_text(tsp)[0]
+        try:
+            for _, why in S.refusals(S.insert_round, pinned, ctx=tctx): rep.count(f'refused:insert_round:{short_reason(why)}')
+        except Exception as e:
+            rep.count(f'listing-error:insert_round:{type(e).__name__}')
+        ir = attempt(f'insert_round[{ttxt}]', lambda: S.insert_round(pinned, tctx), pinned)
+        if ir is not None and tk == 0:
+            attempt(f'insert_round[{ttxt}] > elim_round', lambda: S.elim_round(ir), ir)
+        if tk == 0:
+            try:
+                st = guarded(lambda: S.sites(S.insert_round, pinned, ctx=tctx))
+                rep.count(f'sites:insert_round:{min(len(st), 3)}')
+                if len(st) >= 1:
+                    attempt(f'insert_round@0[{ttxt}]', lambda: S.insert_round(pinned, tctx, 0), pinned)
+                    attempt(f'insert_round@last[{ttxt}]', lambda: S.insert_round(pinned, tctx, st[-1]), pinned)
+                rf = guarded(lambda: S.refusals(S.insert_round, pinned, ctx=tctx))
+                if rf:
+                    # a refused point named by a cursor: the rewrite must say why and leave the program alone
+                    try:
+                        out = guarded(lambda: S.insert_round(pinned, tctx, rf[0][0]))
+                        if not out.ast.is_equiv(pinned.ast): variants.append((f'insert_round@refused[{ttxt}]', out)); rep.count('insert_round:rewrote-a-refused-point')
+                    except Hang: raise
+                    except Exception as e: rep.count(f'insert_round:refused-point-named:{type(e).__name__}')
+            except Hang:
+                rep.count('hang:sites:insert_round')
+            except Exception as e:
+                rep.count(f'where-error:insert_round:{type(e).__name__}')
+    if not variants: return
+    extra = []
+    if shape == 'fit-store' and fixed_body is None:
+        for k in fit_consts: extra += [k, k + 1, k - 1]
+    pools = [typed_members(R, c, octx, extra) for c in argctxs]
+    if any(not p[1] for p in pools): return
+    cap = 6 if len(pools) <= 2 else 4
+    import itertools
+    trials = list(itertools.product(*[p[0][:cap] for p in pools]))
+    trials += [tuple(R.choice(p[1]) for p in pools) for _ in range(14)]
+    if extra:
+        # the constants of a fitted expression (and their neighbours) in every argument position, against the extremes of the others
+        for pi, c in enumerate(argctxs):
+            seen_v = set()
+            for v in extra:
+                try: r = c.round(v)
+                except Exception: continue
+                if r.is_nar() or r.as_rational() in seen_v: continue
+                seen_v.add(r.as_rational())
+                if len(seen_v) > 12: break
+                trials.append(tuple(r if j == pi else R.choice(p[0][:4]) for j, p in enumerate(pools)))
+    if agg == 'list': trials = [([a[0], R.choice(pools[0][1]), R.choice(pools[0][0][:4])],) + tuple(a[1:]) for a in trials]
+    if agg == 'tuple': trials = [((a[0], R.choice(pools[0][0][:4] + pools[0][1])),) + tuple(a[1:]) for a in trials]
+    if '2 **' in body or 'exp2' in body:
+        # an exponent of thirty bits makes the ORIGINAL run for minutes (and leaves the exponent range of the MPFR back end, C02-F3)
+        def small(v):
+            if isinstance(v, (list, tuple)): return all(small(u) for u in v)
+            return v.is_nar() or abs(v.as_rational()) < 4096
+        trials = [a for a in trials if all(small(v) for v in a)]
+    base = {}
+    slow = 0
+    for label, xf in variants:
+        if slow > 3: rep.count('typed:abandoned-slow-original'); break
+        rep.cov['programs'] = rep.cov.get('programs', 0) + 1
+        rep.count('lowered-programs:typed')
+        entry, prog = try_export(rep, xf)
+        desc = None; nmodel = 0
+        sname = label.split('[')[0] + (label.split(']')[1] if ']' in label else '')
+        for ai, args in enumerate(trials):
+            if ai not in base: base[ai] = run_real(pinned, args)
+            want = base[ai]
+            if not want.startswith('ok'):
+                rep.count('typed:orig:' + want.split()[0])
+                if want.startswith('timeout'):
+                    slow += 1
+                    if slow > 3: break
+                continue
+            got = run_real(xf, args)
+            if got.startswith('timeout'):
+                got = run_real(xf, args, None, 30)       # a loaded machine, or a rewritten program that no longer terminates?
+                if got.startswith('timeout'): got = 'err DoesNotTerminate'
+            rep.cov['evaluations'] += 1
+            rep.distinct.add((text, label, repr(args)))
+            rep.count('typed:orig:ok')
+            if got != want:
+                if desc is None: desc = describe(xf)
+                viol(rep, typed_shape_of(texts, body, want, got),
+                     f'{label}: arguments {args_src(args)} of formats {afs}: original returns {want[:70]} but the rewritten program gives {got[:70]}',
+                     {'ctx_src': label.split('[')[1].split(']')[0] if '[' in label else texts[0], 'second_ctx': texts[1], 'strategy': label, 'operand': args_src(args),
+                      'arg_formats': afs, 'outer': outer, 'original': want, 'lowered': got, 'program': text, 'lowered_program': desc, 'typed': True, 'aggregate': agg})
+                if got == 'err DoesNotTerminate': break        # one witness is enough: every further input costs another time-out
+            if prog is not None and agg is None and nmodel < (8 if quick else 30):
+                if desc is None: desc = describe(xf)
+                nmodel += 1
+                lines.append(eval_line(entry, prog, args, None, fuel=100000))
+                meta.append(('eval', f'{label} (typed)', repr(args), got, desc))
+    rep.sample({'strategy': variants[0][0], 'original': describe(pinned), 'rewritten': describe(variants[0][1])}, cap=4)
+
 
 # ---------------------------------------------------------------- work items, run in parallel
 
@@ -1175,13 +2028,19 @@ def do_item(item):
     lines, meta = [], []
     tmp = os.path.join(_TMP, f'{kind}{idx}')
     os.makedirs(tmp, exist_ok=True)
+    import time as _time
+    t0 = _time.process_time()
     try:
         if kind == 'plain': plain_one(rep, R, tmp, idx, payload, quick, lines, meta, seed)
         elif kind == 'emb': embedded_one(rep, R, tmp, idx, quick, lines, meta, seed)
+        elif kind == 'typed': typed_one(rep, R, tmp, idx, quick, lines, meta)
         else: round_axis_one(rep, R, tmp, idx, lines, meta)
+    except Hang:
+        rep.count(f'hang:unattributed:{kind}')
     except Exception:
         import traceback
         rep.broke('harness', f'C10.{kind}[{idx}]', traceback.format_exc())
+    rep.count(f'cpu-seconds:{kind}', round(_time.process_time() - t0, 2))
     return (kind, idx, rep.hist, rep.cov, rep.distinct, rep.broken, rep.viols, lines, meta)
 
 def run(rep, tier, seed):
@@ -1189,26 +2048,64 @@ def run(rep, tier, seed):
     import multiprocessing
     R = Prng(seed, 'C10')
     quick = tier == 'quick'
-    n_rand = 30 if quick else 450
+    n_rand = 12 if quick else 450
     ctxs = [d for d in corpus()]      # the whole corpus in both tiers (one context per acceptance / refusal rule of each strategy)
     for _ in range(n_rand):
         ctxs.append(add_substitutes(R, rand_ctx(R)))
-    n_emb = len(EMBED_FIXED) + (120 if quick else 1500)
-    n_axis = len(ROUND_AXIS_CORPUS) + (60 if quick else 800)
+    n_emb = len(EMBED_FIXED) + (110 if quick else 1500)
+    n_axis = len(ROUND_AXIS_CORPUS) + (40 if quick else 400)
+    n_typed = len(TYPED_FIXED) + (160 if quick else 3000)
     items = ([('plain', i, d, seed, tier) for i, d in enumerate(ctxs)] + [('emb', i, None, seed, tier) for i in range(n_emb)]
-             + [('axis', i, None, seed, tier) for i in range(n_axis)])
+             + [('axis', i, None, seed, tier) for i in range(n_axis)] + [('typed', i, None, seed, tier) for i in range(n_typed)])
+    only = os.environ.get('VERIF_C10_ONLY')      # debugging: restrict to some families of work items, e.g. `typed,axis`
+    if only: items = [it for it in items if it[0] in only.split(',')]
     _TMP = tempfile.mkdtemp(prefix='fpyverif_C10_', dir='/var/tmp')
     jobs = int(os.environ.get('VERIF_JOBS', '0') or 0) or min(16, os.cpu_count() or 1)
+    measure = os.environ.get('VERIF_C10_COVERAGE', '1') != '0'
+    covdir = os.path.join(_TMP, 'coverage'); os.makedirs(covdir)
     results = []
     try:
-        if jobs > 1:
-            with multiprocessing.get_context('fork').Pool(jobs) as pool:
-                for r in pool.imap_unordered(do_item, items, chunksize=1): results.append(r)
-        else:
-            results = [do_item(it) for it in items]
+        # own worker processes (not a Pool): each starts a coverage tracer, pulls item indices from a queue, and saves its
+        # tracer data before it exits
+        mp = multiprocessing.get_context('fork')
+        tasks, out = mp.Queue(), mp.Queue()
+        for i in range(len(items)): tasks.put(i)
+        for _ in range(jobs): tasks.put(None)
+        def worker():
+            import faulthandler
+            faulthandler.register(signal.SIGUSR1, all_threads=False)     # `kill -USR1 <worker>` prints where a worker is
+            if measure: c10cov.start(covdir)
+            try:
+                while True:
+                    i = tasks.get()
+                    if i is None: break
+                    out.put(do_item(items[i]))
+            finally:
+                if measure: c10cov.stop()
+                out.put(None)
+        procs = [mp.Process(target=worker) for _ in range(jobs)]
+        for p in procs: p.start()
+        live = jobs
+        import queue as _queue
+        while live:
+            try:
+                r = out.get(timeout=30)
+            except _queue.Empty:
+                if not any(p.is_alive() for p in procs): break       # every worker is gone (one was killed before its sentinel)
+                continue
+            if r is None: live -= 1
+            else: results.append(r)
+        for p in procs: p.join()
+        if measure:
+            try:
+                rep.cov['code_coverage'] = c10cov.summarize(covdir)
+            except Exception as e:
+                rep.cov['code_coverage'] = {'error': f'{type(e).__name__}: {e}'}
     finally:
         shutil.rmtree(_TMP, ignore_errors=True)
-    order = {'plain': 0, 'emb': 1, 'axis': 2}
+    if len(results) != len(items):
+        rep.broke('harness', 'C10.workers', f'{len(items) - len(results)} work items were lost (a worker died)')
+    order = {'plain': 0, 'emb': 1, 'axis': 2, 'typed': 3}
     results.sort(key=lambda r: (order[r[0]], r[1]))
     lines, meta, nops = [], [], []
     recorded = {}
@@ -1259,7 +2156,11 @@ def run(rep, tier, seed):
                        'assert / early return, under contexts computed or selected at run time (partial evaluation); inputs (x, z): NaN, +-inf, +-0, the literal and its neighbours, '
                        'the edges of the format, z incl. NaN and x itself (arms reached are counted); '
                        'every strategy alone (unfold_overflow also with early_check) and every prefix of the documented chains on all of them; '
-                       '(3) elim_round / insert_round on templates (straight-line, branches, loops) monomorphized to argument formats, inputs are members of those formats; '
+                       '(3) elim_round / insert_round (+ simplify, + one after the other) on programs with TYPED arguments of every family (SINTn/UINTn, scaled / sign-magnitude / unbounded / asymmetric fixed point, '
+                       'low- and high-precision floats, EFloat, ExpContext), every operator (add, sub, mul, neg, abs, min/max, fma, round, cast, logb, exp2, pow, sum, list / tuple operations, calls, foreign constants), '
+                       'rounding contexts related to the argument formats (the format itself back again, wider / narrower members of the family, the general bounded class with the same bounds, every overflow mode), '
+                       'inputs at both extremes of every argument format and all pairs of them; (4) contexts reach the passes written out AND as values (module constant, attribute, with_params, module without a name '
+                       'for fpy2, keyword arguments, positions known only at run time), explicit `where=` index / cursor; (5) code coverage of the passes and their analyses is measured every run (rep.cov.code_coverage); '
                        'operands of (1): breakpoints of the format, neighbourhood of +-maxval, the first value past it, infval, ties, subnormal seam, huge/tiny, specials, non-dyadic rationals; '
                        'distinct = distinct (context text, program, effective strategy sequence, arguments)')
     rep.assumptions += ['the oracle for each lowered program is the real interpreter on the original program (the property is an equivalence of two real programs)',
@@ -1268,9 +2169,28 @@ def run(rep, tier, seed):
                         'work items draw from per-item PRNG streams derived from VERIF_SEED, so the run does not depend on the number of worker processes']
 
 
+def _apply_label(fn, label):
+    """re-apply a recorded strategy label: `a > b`, `a[where=0]`, `a[where=cursor]`, `insert_round[<ctx>] > elim_round`"""
+    xf = fn
+    for part in label.split(' > '):
+        part = part.strip()
+        if part.startswith('insert_round'):
+            head = part.split('[')[0]
+            tctx = eval(part[len(head) + 1:-1], {'fp': fp, 'RealFloat': RealFloat})
+            if head == 'insert_round': xf = S.insert_round(xf, tctx)
+            elif head == 'insert_round@0': xf = S.insert_round(xf, tctx, 0)
+            elif head == 'insert_round@last': xf = S.insert_round(xf, tctx, S.sites(S.insert_round, xf, ctx=tctx)[-1])
+            else: xf = S.insert_round(xf, tctx, S.refusals(S.insert_round, xf, ctx=tctx)[0][0])
+        elif part == 'elim_round': xf = S.elim_round(xf)
+        elif part.endswith('[where=0]'): xf = STRATS[part[:-9]][1](xf, 0)
+        elif part.endswith('[where=cursor]'):
+            strat = STRATS[part[:-14]][1]
+            xf = strat(xf, S.sites(strat, xf)[-1])
+        else: xf = STRATS[part][0](xf)
+    return xf
+
 def replay(rep, data):
     """re-run the recorded violations on the current tree: ./check C10 --replay replays/C10-<seed>-<tier>.json"""
-    import re
     from fpy2.types import RealType
     env = {'Fraction': Fraction, 'Float': Float, 'RealFloat': RealFloat, 'fp': fp, 'float': float}
     tmp = tempfile.mkdtemp(prefix='fpyverif_C10_replay_', dir='/var/tmp')
@@ -1279,29 +2199,34 @@ def replay(rep, data):
         for i, v in enumerate(data.get('violations', [])):
             if 'program' not in v:
                 print(f'[{i}] not a C10 violation record'); continue
-            m = re.search(r'def (\w+)\(', v['program'])
+            m = re.findall(r'^def (\w+)\(', v['program'], re.M)
             path = os.path.join(tmp, f'rp{i}.py')
             with open(path, 'w') as fh: fh.write(v['program'])
             try:
-                fn = getattr(load_module(path, f'fpyverif_C10_replay_{i}'), m.group(1))
+                fn = getattr(load_module(path, f'fpyverif_C10_replay_{i}'), m[-1])
                 x = eval(v['operand'], env)
-                if v['strategy'] in ('elim_round', 'insert_round'):
+                args = x if isinstance(x, tuple) else (x,)
+                if v.get('typed'):
+                    cx = {'fp': fp, 'RealFloat': RealFloat}
+                    from fpy2.types import ListType, TupleType
+                    ats = [RealType(eval(a, cx)) for a in v['arg_formats']]
+                    if v.get('aggregate') == 'list': ats[0] = ListType(ats[0])
+                    if v.get('aggregate') == 'tuple': ats[0] = TupleType(ats[0], ats[0])
+                    fn = S.monomorphize(fn, fp.FP64 if v.get('outer') == 'mono64' else None, ats)
+                    xf = _apply_label(fn, v['strategy'])
+                elif v['strategy'] in ('elim_round', 'insert_round'):
                     fn = S.monomorphize(fn, fp.FP64, [RealType(py_ctx(a)) for a in v['arg_formats']])
                     xf = S.elim_round(fn) if v['strategy'] == 'elim_round' else S.insert_round(fn, py_ctx(v['ctx_src']))
-                    args = x
                 else:
                     if v.get('arg_format'):
                         fn = S.monomorphize(fn, None, [RealType(py_ctx(v['arg_format']))])
-                    xf = fn
-                    for nm in v['strategy'].split(' > '):
-                        xf = STRATS[nm][0](xf)
-                    args = x if isinstance(x, tuple) else (x,)
+                    xf = _apply_label(fn, v['strategy'])
                 want = run_real(fn, args); got = run_real(xf, args)
             except Exception as e:
                 print(f'[{i}] {v.get("shape")}: replay failed: {type(e).__name__}: {e}'); continue
             same = (want == got) or not want.startswith('ok')
             still += 0 if same else 1
-            print(f'[{i}] {v.get("shape")} | {v["strategy"]} on {v["ctx_src"][:90]} | operand {v["operand"][:70]}: original {want}, lowered {got} -> '
+            print(f'[{i}] {v.get("shape")} | {v["strategy"][:60]} on {v["ctx_src"][:80]} | operand {v["operand"][:70]}: original {want[:60]}, lowered {got[:60]} -> '
                   + ('no longer differs' if same else 'STILL DIFFERS'))
     finally:
         shutil.rmtree(tmp, ignore_errors=True)
